@@ -1,2 +1,1770 @@
-(* Lemmas about Model/Tags.v (stub). *)
-From Klog Require Import Base.Prelude Model.Tags.
+(* Lemmas about Model/Tags.v (C14).
+   Part A: the declarative definition of "the tags of a line" and its equivalence with the matcher.
+   Part B: tags, tag sets, Contains, Merge.
+   Part C: AggregateTotalsByTags.
+   Part D: Summary.Tags() on bytes equals the matcher's view (second regexp run, quote trimming, no panic).
+   Part E: the instance at the Go toolchain's Unicode tables.
+   Part F: statements at the Go tables, data for the examples.
+   Part G: the keys of the output are distinct, hence its order is determined; the multi-line witness.
+   Part H: NewTagFromString on arbitrary strings. *)
+From Klog Require Import Base.Prelude Base.Utf8 Model.Calendar Model.Values Model.Record Gen.UnicodeTables Model.Tags Proofs.TagsUtf8.
+From Coq Require Import ZifyBool Permutation Sorted RelationClasses.
+Open Scope N_scope.
+
+(* ===================================================================== *)
+(* Part A — recognition                                                  *)
+(* ===================================================================== *)
+
+Section Recognition.
+  Variable is_letter : N -> bool.
+  Variable A : Type.
+  Variable code : A -> N.
+
+  Notation nc := (name_char is_letter A code).
+  Notation rmatch := (rmatch A).
+
+  (* ---- the declarative definition, from Specification.md "Tag" ---- *)
+
+  Definition all_name (s : list A) : Prop := Forall (fun c => nc c = true) s.
+  (* s does not continue a run of name characters *)
+  Definition not_name_head (s : list A) : Prop := match s with [] => True | c :: _ => nc c = false end.
+
+  (* `=` followed by a quote, a body free of that quote (and of newlines) and the matching closing quote *)
+  Definition quoted_at (after body rest : list A) : Prop :=
+    exists e q cl, after = e :: q :: body ++ cl :: rest /\ code e = ch_eq /\ (code q = ch_dq \/ code q = ch_sq) /\
+      code cl = code q /\ Forall (fun c => code c <> code q /\ code c <> ch_nl) body.
+
+  (* `=` followed by a non-empty maximal run of name characters *)
+  Definition unquoted_at (after run rest : list A) : Prop :=
+    exists e, after = e :: run ++ rest /\ code e = ch_eq /\ run <> [] /\ all_name run /\ not_name_head rest.
+
+  (* the value of a tag whose name ends where [after] begins, and the text following the tag;
+     an empty or unterminated value is absent (the empty list) *)
+  Inductive value_at (after : list A) : list A -> list A -> Prop :=
+  | VQuoted body rest : quoted_at after body rest -> value_at after body rest
+  | VUnquoted run rest : unquoted_at after run rest -> value_at after run rest
+  | VAbsent : (forall b r, ~ quoted_at after b r) -> (forall v r, ~ unquoted_at after v r) -> value_at after [] after.
+
+  (* a tag at the head of the text: `#`, a non-empty maximal run of name characters, optionally a value *)
+  Inductive tag_at : list A -> list A -> list A -> list A -> Prop :=
+  | TagAt h name after value rest :
+      code h = ch_hash -> name <> [] -> all_name name -> not_name_head after ->
+      value_at after value rest -> tag_at (h :: name ++ after) name value rest.
+
+  Definition tag_starts (s : list A) : Prop := exists h c r, s = h :: c :: r /\ code h = ch_hash /\ nc c = true.
+
+  (* the tags of a line, left to right, not overlapping: (name as written, value) *)
+  Inductive spec_tags : list A -> list (list A * list A) -> Prop :=
+  | SNil : spec_tags [] []
+  | STag s name value rest ts : tag_at s name value rest -> spec_tags rest ts -> spec_tags s ((name, value) :: ts)
+  | SSkip c s ts : ~ tag_starts (c :: s) -> spec_tags s ts -> spec_tags (c :: s) ts.
+
+  Definition no_newline (s : list A) : Prop := Forall (fun c => code c <> ch_nl) s.
+
+  (* ---- span ---- *)
+
+  Lemma span_eq (p : A -> bool) l : l = fst (span p l) ++ snd (span p l).
+  Proof. symmetry. apply span_app. Qed.
+
+  Lemma span_fst_all (p : A -> bool) l : Forall (fun c => p c = true) (fst (span p l)).
+  Proof.
+    induction l as [|x r IH]; simpl; [constructor|].
+    destruct (p x) eqn:E; [|constructor]. destruct (span p r). simpl in *. constructor; assumption.
+  Qed.
+
+  Lemma span_snd_head (p : A -> bool) l : match snd (span p l) with [] => True | c :: _ => p c = false end.
+  Proof.
+    induction l as [|x r IH]; simpl; [exact I|].
+    destruct (p x) eqn:E; [|exact E]. destruct (span p r). simpl in *. exact IH.
+  Qed.
+
+  Lemma span_unique (p : A -> bool) a b :
+    Forall (fun c => p c = true) a -> match b with [] => True | c :: _ => p c = false end -> span p (a ++ b) = (a, b).
+  Proof.
+    intros Ha Hb. induction Ha as [|x a Hx _ IH]; simpl.
+    - destruct b as [|c b]; [reflexivity|]. simpl. rewrite Hb. reflexivity.
+    - rewrite Hx, IH. reflexivity.
+  Qed.
+
+  Lemma name_split_unique a b a' b' :
+    all_name a -> not_name_head b -> all_name a' -> not_name_head b' -> a ++ b = a' ++ b' -> a = a' /\ b = b'.
+  Proof.
+    intros Ha Hb Ha' Hb' E.
+    pose proof (span_unique nc a b Ha Hb) as H1. pose proof (span_unique nc a' b' Ha' Hb') as H2.
+    rewrite E in H1. rewrite H1 in H2. injection H2 as -> ->. split; reflexivity.
+  Qed.
+
+  (* ---- until_quote ---- *)
+
+  Lemma until_quote_some q s body cl rest :
+    until_quote A code q s = Some (body, cl, rest) <->
+    s = body ++ cl :: rest /\ code cl = q /\ Forall (fun c => code c <> q) body.
+  Proof.
+    revert body. induction s as [|c r IH]; intros body; simpl.
+    - split; [discriminate|]. intros (E & _). destruct body; discriminate.
+    - destruct (code c =? q) eqn:Ec.
+      + apply N.eqb_eq in Ec. split.
+        * intros [= <- <- <-]. repeat split; [exact Ec | constructor].
+        * intros (E & Hcl & Hb). destruct body as [|b body].
+          -- injection E as <- <-. reflexivity.
+          -- injection E as <- _. inversion Hb; subst. congruence.
+      + apply N.eqb_neq in Ec. destruct (until_quote A code q r) as [[[b0 cl0] rest0]|] eqn:Eu.
+        * split.
+          -- intros [= <- <- <-]. destruct (proj1 (IH b0) eq_refl) as (-> & Hcl & Hb).
+             repeat split; [exact Hcl | constructor; assumption].
+          -- intros (E & Hcl & Hb). destruct body as [|b body].
+             ++ injection E as <- _. congruence.
+             ++ injection E as <- E. inversion Hb; subst.
+                assert (Some (b0, cl0, rest0) = Some (body, cl, rest)) as [= -> -> ->] by (apply IH; auto).
+                reflexivity.
+        * split; [discriminate|]. intros (E & Hcl & Hb). destruct body as [|b body].
+          -- injection E as <- _. congruence.
+          -- injection E as <- E. inversion Hb; subst.
+             assert (None = Some (body, cl, rest)) by (apply IH; auto). discriminate.
+  Qed.
+
+  Lemma until_quote_none q s : until_quote A code q s = None -> Forall (fun c => code c <> q) s.
+  Proof.
+    induction s as [|c r IH]; simpl; [constructor|].
+    destruct (code c =? q) eqn:Ec; [discriminate|]. apply N.eqb_neq in Ec.
+    destruct (until_quote A code q r) as [[[? ?] ?]|]; [discriminate|]. intros _. constructor; auto.
+  Qed.
+
+  (* ---- quote trimming on symbols ---- *)
+
+  Lemma drop_code_head q s : match s with [] => True | c :: _ => code c <> q end -> drop_code A code q s = s.
+  Proof. destruct s as [|c r]; [reflexivity|]. simpl. intros H. apply N.eqb_neq in H. rewrite H. reflexivity. Qed.
+
+  Lemma trim_quoted q op body cl :
+    code op = q -> code cl = q -> Forall (fun c => code c <> q) body ->
+    trim_code A code q (op :: body ++ [cl]) = body.
+  Proof.
+    intros Hop Hcl Hb. unfold trim_code. cbn [drop_code]. rewrite (proj2 (N.eqb_eq _ _) Hop).
+    destruct body as [|b body].
+    - simpl. rewrite (proj2 (N.eqb_eq _ _) Hcl). reflexivity.
+    - cbn [app]. rewrite (drop_code_head q (b :: body ++ [cl])) by (simpl; inversion Hb; assumption).
+      change (b :: body ++ [cl]) with ((b :: body) ++ [cl]).
+      rewrite rev_app_distr. cbn [rev app drop_code]. rewrite (proj2 (N.eqb_eq _ _) Hcl).
+      rewrite (drop_code_head q (rev body ++ [b])).
+      + change (rev body ++ [b]) with (rev (b :: body)). apply rev_involutive.
+      + destruct (rev body ++ [b]) as [|x l] eqn:E; [exact I|].
+        assert (Hin : In x (b :: body)).
+        { apply in_rev. cbn [rev]. rewrite E. left. reflexivity. }
+        rewrite Forall_forall in Hb. apply Hb. exact Hin.
+  Qed.
+
+  (* ---- fuel ---- *)
+
+  Lemma match_value_length after g2 g3 rest :
+    match_value is_letter A code after = (g2, g3, rest) -> (length rest <= length after)%nat.
+  Proof.
+    unfold match_value. destruct after as [|e r]; [intros [= <- <- <-]; simpl; lia|].
+    destruct (code e =? ch_eq); [|intros [= <- <- <-]; simpl; lia].
+    assert (Hun : forall g2 g3 rest, (let '(run, rest) := span nc r in (e :: run, run, rest)) = (g2, g3, rest) ->
+                                     (length rest <= length (e :: r))%nat).
+    { intros g2' g3' rest'. pose proof (span_eq nc r) as Hs. destruct (span nc r) as [run rs]. simpl in Hs.
+      intros [= <- <- <-]. simpl. rewrite (f_equal (@length A) Hs), app_length. lia. }
+    destruct r as [|q r']; [apply Hun|].
+    destruct ((code q =? ch_dq) || (code q =? ch_sq)); [|apply Hun].
+    destruct (until_quote A code (code q) r') as [[[body cl] rest0]|] eqn:Eu; [|apply Hun].
+    intros [= <- <- <-]. apply until_quote_some in Eu as (-> & _). simpl. rewrite app_length. simpl. lia.
+  Qed.
+
+  Lemma match_at_length s m rest : match_at is_letter A code s = Some (m, rest) -> (length rest < length s)%nat.
+  Proof.
+    unfold match_at. destruct s as [|h r]; [discriminate|].
+    destruct (code h =? ch_hash); [|discriminate].
+    pose proof (span_eq nc r) as Hs. destruct (span nc r) as [name after]. simpl in Hs.
+    destruct name as [|n0 name]; [discriminate|].
+    destruct (match_value is_letter A code after) as [[g2 g3] rest0] eqn:Ev.
+    intros [= <- <-]. apply match_value_length in Ev. rewrite Hs. simpl. rewrite app_length. lia.
+  Qed.
+
+  Lemma find_all_fuel_enough n : forall m s, (length s <= n)%nat -> (length s <= m)%nat ->
+    find_all_fuel is_letter A code n s = find_all_fuel is_letter A code m s.
+  Proof.
+    induction n as [|n IH]; intros m s Hn Hm.
+    - destruct s; [|simpl in Hn; lia]. destruct m; reflexivity.
+    - destruct s as [|c r]; [destruct m; reflexivity|].
+      destruct m as [|m]; [simpl in Hm; lia|].
+      cbn [find_all_fuel]. destruct (match_at is_letter A code (c :: r)) as [[mm rest]|] eqn:E.
+      + apply match_at_length in E. f_equal. apply IH; simpl in *; lia.
+      + apply IH; simpl in *; lia.
+  Qed.
+
+  Lemma find_all_nil : find_all is_letter A code [] = [].
+  Proof. reflexivity. Qed.
+
+  Lemma find_all_cons c r :
+    find_all is_letter A code (c :: r) =
+    match match_at is_letter A code (c :: r) with
+    | Some (m, rest) => m :: find_all is_letter A code rest
+    | None => find_all is_letter A code r
+    end.
+  Proof.
+    unfold find_all. cbn [length find_all_fuel].
+    destruct (match_at is_letter A code (c :: r)) as [[m rest]|] eqn:E.
+    - apply match_at_length in E. f_equal. apply find_all_fuel_enough; simpl in *; lia.
+    - reflexivity.
+  Qed.
+
+  Lemma match_at_not_hash c r : code c <> ch_hash -> match_at is_letter A code (c :: r) = None.
+  Proof. intros H. unfold match_at. apply N.eqb_neq in H. rewrite H. reflexivity. Qed.
+
+  (* a symbol that is not `#` is skipped *)
+  Lemma find_all_skip c r : code c <> ch_hash -> find_all is_letter A code (c :: r) = find_all is_letter A code r.
+  Proof. intros H. rewrite find_all_cons, match_at_not_hash by exact H. reflexivity. Qed.
+
+  (* ---- the specification is functional ---- *)
+
+  Hypothesis dq_not_letter : is_letter ch_dq = false.
+  Hypothesis sq_not_letter : is_letter ch_sq = false.
+
+  Lemma quote_not_name c : code c = ch_dq \/ code c = ch_sq -> nc c = false.
+  Proof.
+    unfold name_char, name_code. intros [-> | ->].
+    - rewrite dq_not_letter. reflexivity.
+    - rewrite sq_not_letter. reflexivity.
+  Qed.
+
+  Lemma split_first_unique q b cl r b' cl' r' :
+    code cl = q -> Forall (fun c => code c <> q) b -> code cl' = q -> Forall (fun c => code c <> q) b' ->
+    b ++ cl :: r = b' ++ cl' :: r' -> b = b' /\ r = r'.
+  Proof.
+    intros Hc Hb Hc' Hb' E.
+    assert (H1 : until_quote A code q (b ++ cl :: r) = Some (b, cl, r)) by (apply until_quote_some; auto).
+    assert (H2 : until_quote A code q (b' ++ cl' :: r') = Some (b', cl', r')) by (apply until_quote_some; auto).
+    rewrite E in H1. rewrite H1 in H2. injection H2 as -> _ ->. split; reflexivity.
+  Qed.
+
+  Lemma quoted_unquoted_excl after b r v r' : quoted_at after b r -> unquoted_at after v r' -> False.
+  Proof.
+    intros (e & q & cl & -> & _ & Hq & _) (e' & E & _ & Hne & Hall & _).
+    destruct v as [|x v]; [congruence|]. injection E as _ <- _.
+    inversion Hall; subst. rewrite quote_not_name in H1 by exact Hq. discriminate.
+  Qed.
+
+  Lemma value_at_fun after v1 r1 v2 r2 : value_at after v1 r1 -> value_at after v2 r2 -> v1 = v2 /\ r1 = r2.
+  Proof.
+    intros H1 H2. destruct H1 as [b r Hq | v r Hu | Hnq Hnu]; destruct H2 as [b' r' Hq' | v' r' Hu' | Hnq' Hnu'].
+    - destruct Hq as (e & q & cl & -> & _ & _ & Hcl & Hb). destruct Hq' as (e' & q' & cl' & E & _ & _ & Hcl' & Hb').
+      injection E as <- <- E.
+      apply (split_first_unique (code q)) in E; auto.
+      + eapply Forall_impl; [|exact Hb]. simpl. tauto.
+      + eapply Forall_impl; [|exact Hb']. simpl. tauto.
+    - exfalso. eapply quoted_unquoted_excl; eassumption.
+    - exfalso. eapply Hnq'; eassumption.
+    - exfalso. eapply quoted_unquoted_excl; eassumption.
+    - destruct Hu as (e & -> & _ & _ & Ha & Hh). destruct Hu' as (e' & E & _ & _ & Ha' & Hh').
+      injection E as <- E. apply name_split_unique in E; auto.
+    - exfalso. eapply Hnu'; eassumption.
+    - exfalso. eapply Hnq; eassumption.
+    - exfalso. eapply Hnu; eassumption.
+    - split; reflexivity.
+  Qed.
+
+  Lemma tag_at_fun s n1 v1 r1 n2 v2 r2 : tag_at s n1 v1 r1 -> tag_at s n2 v2 r2 -> n1 = n2 /\ v1 = v2 /\ r1 = r2.
+  Proof.
+    intros H1 H2. destruct H1 as [h name after value rest Hh Hne Ha Hnh Hv].
+    inversion H2 as [h' name' after' value' rest' Hh' Hne' Ha' Hnh' Hv' E]; subst.
+    apply name_split_unique in H as [-> ->]; auto.
+    destruct (value_at_fun _ _ _ _ _ Hv Hv') as [-> ->]. repeat split.
+  Qed.
+
+  Lemma tag_at_starts s n v r : tag_at s n v r -> tag_starts s.
+  Proof.
+    intros [h name after value rest Hh Hne Ha _ _]. destruct name as [|c name]; [congruence|].
+    inversion Ha; subst. exists h, c, (name ++ after). repeat split; assumption.
+  Qed.
+
+  Lemma spec_tags_fun s : forall t1 t2, spec_tags s t1 -> spec_tags s t2 -> t1 = t2.
+  Proof.
+    intros t1 t2 H1. revert t2. induction H1 as [| s name value rest ts Ht _ IH | c s ts Hns _ IH]; intros t2 H2.
+    - inversion H2; subst; [reflexivity|]. inversion H.
+    - inversion H2; subst.
+      + inversion Ht.
+      + destruct (tag_at_fun _ _ _ _ _ _ _ Ht H) as (-> & -> & ->). f_equal. apply IH. assumption.
+      + exfalso. apply H. eapply tag_at_starts; eassumption.
+    - inversion H2; subst.
+      + exfalso. apply Hns. eapply tag_at_starts; eassumption.
+      + apply IH. assumption.
+  Qed.
+
+  (* ---- the matcher satisfies the specification ---- *)
+
+  Lemma no_newline_app a b : no_newline (a ++ b) -> no_newline a /\ no_newline b.
+  Proof. unfold no_newline. rewrite Forall_app. tauto. Qed.
+
+  (* what the optional group finds is the specification's value; the search resumes at the same place,
+     or one `=` later *)
+  Lemma match_value_spec after g2 g3 rest' : no_newline after ->
+    match_value is_letter A code after = (g2, g3, rest') ->
+    exists rest, value_at after (value_syms A code g3) rest /\
+                 (rest = rest' \/ exists e, code e = ch_eq /\ rest = e :: rest').
+  Proof.
+    intros Hnl. unfold match_value. destruct after as [|e r].
+    { intros [= <- <- <-]. exists []. split; [|left; reflexivity]. apply VAbsent.
+      - intros b r (e & q & cl & E & _). discriminate.
+      - intros v r (e & E & _). discriminate. }
+    destruct (code e =? ch_eq) eqn:Ee.
+    2:{ intros [= <- <- <-]. exists (e :: r). split; [|left; reflexivity]. apply N.eqb_neq in Ee. apply VAbsent.
+        - intros b r0 (e0 & q & cl & E & He & _). injection E as <- _. congruence.
+        - intros v r0 (e0 & E & He & _). injection E as <- _. congruence. }
+    apply N.eqb_eq in Ee.
+    (* the unquoted alternative, given that no quoted value starts here *)
+    assert (Hun : (forall b r0, ~ quoted_at (e :: r) b r0) ->
+                  (let '(run, rest) := span nc r in (e :: run, run, rest)) = (g2, g3, rest') ->
+                  exists rest, value_at (e :: r) (value_syms A code g3) rest /\
+                               (rest = rest' \/ exists e0, code e0 = ch_eq /\ rest = e0 :: rest')).
+    { intros Hnq. pose proof (span_eq nc r) as Hs. pose proof (span_fst_all nc r) as Hall.
+      pose proof (span_snd_head nc r) as Hhead. destruct (span nc r) as [run rs]. simpl in Hs, Hall, Hhead.
+      intros [= <- <- <-]. destruct run as [|x run].
+      - simpl in Hs. subst r. exists (e :: rs). split; [|right; exists e; split; [exact Ee | reflexivity]].
+        apply VAbsent; [exact Hnq|].
+        intros v r0 (e0 & E & _ & Hne & Ha & Hh). injection E as _ E.
+        destruct v as [|y v]; [congruence|]. inversion Ha; subst.
+        simpl in Hhead. congruence.
+      - exists rs. split; [|left; reflexivity].
+        assert (Hv : value_syms A code (x :: run) = x :: run).
+        { unfold value_syms. inversion Hall; subst.
+          destruct (code x =? ch_dq) eqn:E1; [apply N.eqb_eq in E1; rewrite quote_not_name in H1 by auto; discriminate|].
+          destruct (code x =? ch_sq) eqn:E2; [apply N.eqb_eq in E2; rewrite quote_not_name in H1 by auto; discriminate|].
+          reflexivity. }
+        rewrite Hv. apply VUnquoted. exists e. repeat split; auto; [congruence | discriminate]. }
+    destruct r as [|q r'].
+    { apply Hun. intros b r0 (e0 & q & cl & E & _). destruct b; discriminate. }
+    destruct ((code q =? ch_dq) || (code q =? ch_sq)) eqn:Eq.
+    2:{ apply Hun. intros b r0 (e0 & q0 & cl & E & _ & Hq0 & _). injection E as _ <- _.
+        apply orb_false_iff in Eq as [E1 E2]. apply N.eqb_neq in E1, E2. tauto. }
+    assert (Hq : code q = ch_dq \/ code q = ch_sq).
+    { apply orb_true_iff in Eq as [E1 | E1]; apply N.eqb_eq in E1; auto. }
+    destruct (until_quote A code (code q) r') as [[[body cl] rest0]|] eqn:Eu.
+    - intros [= <- <- <-]. apply until_quote_some in Eu as (-> & Hcl & Hb).
+      exists rest0. split; [|left; reflexivity].
+      assert (Hv : value_syms A code (q :: body ++ [cl]) = body).
+      { unfold value_syms. destruct Hq as [Hq | Hq].
+        - rewrite Hq in *. rewrite N.eqb_refl. apply trim_quoted; assumption.
+        - rewrite Hq in *. change (ch_sq =? ch_dq) with false. rewrite N.eqb_refl. apply trim_quoted; assumption. }
+      rewrite Hv. apply VQuoted. exists e, q, cl. repeat split; auto.
+      unfold no_newline in Hnl. inversion Hnl as [|? ? _ Hnl']; subst. inversion Hnl' as [|? ? _ Hnl'']; subst.
+      apply Forall_app in Hnl'' as [Hnb _].
+      rewrite Forall_forall in *. intros c Hc. split; [apply Hb | apply Hnb]; exact Hc.
+    - apply Hun. intros b r0 (e0 & q0 & cl & E & _ & _ & Hcl & Hb). injection E as _ <- E.
+      apply until_quote_none in Eu. rewrite E in Eu. apply Forall_app in Eu as [_ Eu].
+      inversion Eu; subst. congruence.
+  Qed.
+
+  Lemma match_at_none s : match_at is_letter A code s = None -> ~ tag_starts s.
+  Proof.
+    intros H (h & c & r & -> & Hh & Hc). unfold match_at in H.
+    rewrite (proj2 (N.eqb_eq _ _) Hh) in H. cbn [span] in H. rewrite Hc in H.
+    destruct (span nc r) as [run rs]. destruct (match_value is_letter A code rs) as [[? ?] ?]. discriminate.
+  Qed.
+
+  Lemma match_at_spec s m rest' : no_newline s -> match_at is_letter A code s = Some (m, rest') ->
+    exists rest, tag_at s (m_name m) (value_syms A code (m_val m)) rest /\
+                 (rest = rest' \/ exists e, code e = ch_eq /\ rest = e :: rest').
+  Proof.
+    intros Hnl. unfold match_at. destruct s as [|h r]; [discriminate|].
+    destruct (code h =? ch_hash) eqn:Eh; [|discriminate]. apply N.eqb_eq in Eh.
+    pose proof (span_eq nc r) as Hs. pose proof (span_fst_all nc r) as Hall. pose proof (span_snd_head nc r) as Hhead.
+    destruct (span nc r) as [name after]. simpl in Hs, Hall, Hhead.
+    destruct name as [|n0 name]; [discriminate|].
+    destruct (match_value is_letter A code after) as [[g2 g3] rest0] eqn:Ev.
+    intros [= <- <-]. cbn [m_name m_val].
+    assert (Hnl' : no_newline after).
+    { inversion Hnl; subst. apply no_newline_app in H2. tauto. }
+    destruct (match_value_spec _ _ _ _ Hnl' Ev) as (rest & Hv & Hr).
+    exists rest. split; [|exact Hr]. rewrite Hs. constructor; auto. discriminate.
+  Qed.
+
+  Lemma tag_at_suffix s n v rest : tag_at s n v rest -> exists pre, s = pre ++ rest.
+  Proof.
+    intros [h name after value rest0 _ _ _ _ Hv]. destruct Hv as [b r (e & q & cl & -> & _) | v0 r (e & -> & _) |].
+    - exists (h :: name ++ e :: q :: b ++ [cl]). simpl. repeat (rewrite <- app_assoc; simpl). reflexivity.
+    - exists (h :: name ++ e :: v0). simpl. repeat (rewrite <- app_assoc; simpl). reflexivity.
+    - exists (h :: name). reflexivity.
+  Qed.
+
+  Lemma find_all_sound_aux n : forall s, (length s <= n)%nat -> no_newline s ->
+    spec_tags s (map (match_view A code) (find_all is_letter A code s)).
+  Proof.
+    induction n as [|n IH]; intros s Hn Hnl.
+    - destruct s; [constructor | simpl in Hn; lia].
+    - destruct s as [|c r]; [constructor|].
+      rewrite find_all_cons. destruct (match_at is_letter A code (c :: r)) as [[m rest']|] eqn:E.
+      + pose proof (match_at_length _ _ _ E) as Hlen.
+        destruct (match_at_spec _ _ _ Hnl E) as (rest & Ht & Hr).
+        cbn [map]. unfold match_view at 1. apply (STag _ _ _ rest); [exact Ht|].
+        destruct (tag_at_suffix _ _ _ _ Ht) as (pre & Epre).
+        assert (Hnlr : no_newline rest) by (rewrite Epre in Hnl; apply no_newline_app in Hnl; tauto).
+        destruct Hr as [-> | (e & He & ->)].
+        * apply IH; [simpl in *; lia | exact Hnlr].
+        * apply SSkip.
+          -- intros (h & c0 & r0 & E0 & Hh & _). injection E0 as <- _. rewrite He in Hh. discriminate.
+          -- apply IH; [simpl in *; lia | inversion Hnlr; assumption].
+      + apply SSkip; [apply match_at_none; exact E|].
+        apply IH; [simpl in *; lia | inversion Hnl; assumption].
+  Qed.
+
+  (* THEOREM 1: on a single line the matcher finds exactly the specification's tags *)
+  Theorem find_tags_spec s : no_newline s ->
+    forall ts, spec_tags s ts <-> map (match_view A code) (find_all is_letter A code s) = ts.
+  Proof.
+    intros Hnl ts. pose proof (find_all_sound_aux (length s) s (le_n _) Hnl) as H. split.
+    - intros Hs. eapply spec_tags_fun; eassumption.
+    - intros <-. exact H.
+  Qed.
+End Recognition.
+
+(* ===================================================================== *)
+(* Part B — tags, tag sets, Contains, Merge                              *)
+(* ===================================================================== *)
+
+Lemma tag_eqb_eq a b : tag_eqb a b = true <-> a = b.
+Proof.
+  unfold tag_eqb. rewrite andb_true_iff, !bytes_eqb_eq. destruct a, b; simpl. split.
+  - intros [-> ->]. reflexivity.
+  - intros [= -> ->]. split; reflexivity.
+Qed.
+
+Lemma tag_eqb_refl a : tag_eqb a a = true.
+Proof. apply tag_eqb_eq. reflexivity. Qed.
+
+Lemma tag_eqb_neq a b : tag_eqb a b = false <-> a <> b.
+Proof. rewrite <- tag_eqb_eq. destruct (tag_eqb a b); split; congruence. Qed.
+
+Lemma tag_eqb_sym a b : tag_eqb a b = tag_eqb b a.
+Proof.
+  destruct (tag_eqb a b) eqn:E1, (tag_eqb b a) eqn:E2; try reflexivity.
+  - apply tag_eqb_eq in E1. subst. rewrite tag_eqb_refl in E2. discriminate.
+  - apply tag_eqb_eq in E2. subst. rewrite tag_eqb_refl in E1. discriminate.
+Qed.
+
+Lemma existsb_tag_In t l : existsb (tag_eqb t) l = true <-> In t l.
+Proof.
+  rewrite existsb_exists. split.
+  - intros (x & Hin & E). apply tag_eqb_eq in E. subst. exact Hin.
+  - intros Hin. exists t. split; [exact Hin | apply tag_eqb_refl].
+Qed.
+
+Lemma Forall2_in_l {X Y} (R : X -> Y -> Prop) l l' x : Forall2 R l l' -> In x l -> exists y, In y l' /\ R x y.
+Proof.
+  induction 1 as [|a b l l' Hab _ IH]; intros Hin; [destruct Hin|].
+  destruct Hin as [<- | Hin]; [exists b; split; [left; reflexivity | exact Hab]|].
+  destruct (IH Hin) as (y & Hy & Hr). exists y. split; [right; exact Hy | exact Hr].
+Qed.
+
+Lemma Forall2_in_r {X Y} (R : X -> Y -> Prop) l l' y : Forall2 R l l' -> In y l' -> exists x, In x l /\ R x y.
+Proof.
+  induction 1 as [|a b l l' Hab _ IH]; intros Hin; [destruct Hin|].
+  destruct Hin as [<- | Hin]; [exists a; split; [left; reflexivity | exact Hab]|].
+  destruct (IH Hin) as (x & Hx & Hr). exists x. split; [right; exact Hx | exact Hr].
+Qed.
+
+Lemma NoDup_snoc {X} (l : list X) t : NoDup l -> ~ In t l -> NoDup (l ++ [t]).
+Proof.
+  induction 1 as [|a l Ha _ IH]; simpl; intros Hn.
+  - repeat constructor. intros [].
+  - constructor.
+    + rewrite in_app_iff. simpl. intros [H2 | [H2 | []]]; [auto | subst; apply Hn; left; reflexivity].
+    + apply IH. intros Hin. apply Hn. right. exact Hin.
+Qed.
+
+Definition is_nil (s : bytes) : bool := match s with [] => true | _ => false end.
+
+(* the data tag t is selected by the key (query) k: same name; k without value, or the same value *)
+Definition tag_matches (t k : tag) : bool :=
+  bytes_eqb (t_name t) (t_name k) && (is_nil (t_value k) || bytes_eqb (t_value t) (t_value k)).
+Definition carries (found : list tag) (k : tag) : bool := existsb (fun t => tag_matches t k) found.
+
+Section TagSets.
+  Variable to_lower : N -> N.
+  Hypothesis lower_idem : forall r, to_lower (to_lower r) = to_lower r.
+  Hypothesis lower_scalar : forall r, is_scalar r = true -> is_scalar (to_lower r) = true.
+
+  Notation stl := (str_to_lower to_lower).
+  Notation mk_tag := (mk_tag to_lower).
+  Notation bare := (bare to_lower).
+  Notation ts_put := (ts_put to_lower).
+  Notation set_add := Model.Tags.set_add.
+
+  Lemma lowered_scalar s : Forall (fun r => is_scalar r = true) (map to_lower (utf8_decode s)).
+  Proof.
+    pose proof (utf8_decode_scalar s) as H. induction H; simpl; constructor; auto.
+  Qed.
+
+  (* strings.ToLower is idempotent on every byte string *)
+  Lemma str_to_lower_idem s : stl (stl s) = stl s.
+  Proof.
+    unfold str_to_lower. rewrite utf8_decode_encode by apply lowered_scalar.
+    rewrite map_map. f_equal. apply map_ext. intros r. apply lower_idem.
+  Qed.
+
+  (* names are compared after lower-casing, rune by rune; values literally *)
+  Lemma str_to_lower_eq_runes a b :
+    stl a = stl b <-> map to_lower (utf8_decode a) = map to_lower (utf8_decode b).
+  Proof.
+    unfold str_to_lower. split.
+    - intros H. apply (f_equal utf8_decode) in H.
+      rewrite !utf8_decode_encode in H by apply lowered_scalar. exact H.
+    - intros ->. reflexivity.
+  Qed.
+
+  Theorem tag_eq_spec n1 v1 n2 v2 :
+    mk_tag n1 v1 = mk_tag n2 v2 <->
+    map to_lower (utf8_decode n1) = map to_lower (utf8_decode n2) /\ v1 = v2.
+  Proof.
+    rewrite <- str_to_lower_eq_runes. unfold Model.Tags.mk_tag. split.
+    - intros [= H1 H2]. split; assumption.
+    - intros [-> ->]. reflexivity.
+  Qed.
+
+  Definition tag_norm (t : tag) : Prop := stl (t_name t) = t_name t.
+
+  Lemma mk_tag_norm n v : tag_norm (mk_tag n v).
+  Proof. unfold tag_norm, Model.Tags.mk_tag. simpl. apply str_to_lower_idem. Qed.
+
+  Lemma bare_norm t : tag_norm (bare t).
+  Proof. apply mk_tag_norm. Qed.
+
+  Lemma bare_of_norm t : tag_norm t -> bare t = {| t_name := t_name t; t_value := [] |}.
+  Proof. unfold tag_norm, Model.Tags.bare, Model.Tags.mk_tag. intros ->. reflexivity. Qed.
+
+  Lemma bare_bare t : bare (bare t) = bare t.
+  Proof. unfold Model.Tags.bare, Model.Tags.mk_tag. simpl. rewrite str_to_lower_idem. reflexivity. Qed.
+
+  (* a key equals the tag or its bare name  <->  it selects the tag *)
+  Lemma matches_iff t k : tag_norm t -> (k = t \/ k = bare t) <-> tag_matches t k = true.
+  Proof.
+    intros Hn. unfold tag_matches. rewrite andb_true_iff, orb_true_iff, !bytes_eqb_eq.
+    rewrite (bare_of_norm t Hn). destruct t as [tn tv], k as [kn kv]. simpl. split.
+    - intros [[= -> ->] | [= -> ->]]; split; auto.
+    - intros [-> [Hnil | ->]]; [right | left; reflexivity].
+      destruct kv; [reflexivity | discriminate].
+  Qed.
+
+  (* ---- the lookup set ---- *)
+
+  Lemma set_add_In x t l : In x (set_add t l) <-> x = t \/ In x l.
+  Proof.
+    unfold Model.Tags.set_add. destruct (existsb (tag_eqb t) l) eqn:E.
+    - apply existsb_tag_In in E. split; [auto|]. intros [-> | H]; assumption.
+    - rewrite in_app_iff. simpl. split; [intros [H | [<- | []]]; auto | intros [-> | H]; auto].
+  Qed.
+
+  Lemma set_add_NoDup t l : NoDup l -> NoDup (set_add t l).
+  Proof.
+    intros H. unfold Model.Tags.set_add. destruct (existsb (tag_eqb t) l) eqn:E; [exact H|].
+    assert (Hn : ~ In t l) by (intros Hin; apply existsb_tag_In in Hin; congruence).
+    apply NoDup_snoc; assumption.
+  Qed.
+
+  Lemma put_lookup_In x ts t : In x (ts_lookup (ts_put ts t)) <-> In x (ts_lookup ts) \/ x = t \/ x = bare t.
+  Proof. unfold Model.Tags.ts_put. simpl. rewrite !set_add_In. tauto. Qed.
+
+  Lemma put_lookup_NoDup ts t : NoDup (ts_lookup ts) -> NoDup (ts_lookup (ts_put ts t)).
+  Proof. intros H. unfold Model.Tags.ts_put. simpl. apply set_add_NoDup, set_add_NoDup, H. Qed.
+
+  Lemma put_all_lookup_In l : forall ts x,
+    In x (ts_lookup (fold_left ts_put l ts)) <-> In x (ts_lookup ts) \/ exists t, In t l /\ (x = t \/ x = bare t).
+  Proof.
+    induction l as [|t l IH]; intros ts x; simpl.
+    - split; [auto | intros [H | (t & [] & _)]; exact H].
+    - rewrite IH, put_lookup_In. split.
+      + intros [[H | H] | (t' & Hin & H)]; [left; exact H | right; exists t; auto | right; exists t'; auto].
+      + intros [H | (t' & [<- | Hin] & H)]; [left; left; exact H | left; right; exact H | right; exists t'; auto].
+  Qed.
+
+  Lemma put_all_lookup_NoDup l : forall ts, NoDup (ts_lookup ts) -> NoDup (ts_lookup (fold_left ts_put l ts)).
+  Proof. induction l as [|t l IH]; intros ts H; simpl; [exact H|]. apply IH, put_lookup_NoDup, H. Qed.
+
+  Lemma put_all_original l : forall ts, ts_original (fold_left ts_put l ts) = ts_original ts ++ l.
+  Proof.
+    induction l as [|t l IH]; intros ts; simpl; [symmetry; apply app_nil_r|].
+    rewrite IH. simpl. rewrite <- app_assoc. reflexivity.
+  Qed.
+
+  Lemma contains_In ts q : ts_contains ts q = true <-> In q (ts_lookup ts).
+  Proof. apply existsb_tag_In. Qed.
+
+  Lemma carries_iff found k : Forall tag_norm found ->
+    carries found k = true <-> exists t, In t found /\ (k = t \/ k = bare t).
+  Proof.
+    intros Hn. unfold carries. rewrite existsb_exists. rewrite Forall_forall in Hn.
+    split; intros (t & Hin & H); exists t; (split; [exact Hin|]); apply (matches_iff t k (Hn t Hin)); exact H.
+  Qed.
+
+  (* THEOREM 2b, general form: a set built by Put contains exactly the keys that select one of the tags put *)
+  Lemma contains_put_all l k : Forall tag_norm l ->
+    ts_contains (fold_left ts_put l (ts_empty)) k = carries l k.
+  Proof.
+    intros Hn. apply eq_true_iff_eq. rewrite contains_In, put_all_lookup_In, carries_iff by exact Hn.
+    simpl. tauto.
+  Qed.
+
+  Lemma is_subset_spec qs ts : is_subset_of qs ts = true <-> forall q, In q qs -> ts_contains ts q = true.
+  Proof. unfold is_subset_of. apply forallb_forall. Qed.
+
+  (* ---- Merge ---- *)
+
+  Lemma merge_lists_In ls : forall x,
+    In x (ts_lookup (merge_lists to_lower ls)) <-> exists l t, In l ls /\ In t l /\ (x = t \/ x = bare t).
+  Proof.
+    unfold merge_lists.
+    assert (H : forall ls ts x, In x (ts_lookup (fold_left (fun acc l => fold_left ts_put l acc) ls ts)) <->
+                                In x (ts_lookup ts) \/ exists l t, In l ls /\ In t l /\ (x = t \/ x = bare t)).
+    { clear ls. induction ls as [|l ls IH]; intros ts x; simpl.
+      - split; [auto | intros [H | (l & t & [] & _)]; exact H].
+      - rewrite IH, put_all_lookup_In. split.
+        + intros [[H | (t & Hin & H)] | (l' & t & Hl & Hin & H)].
+          * left; exact H.
+          * right. exists l, t. auto.
+          * right. exists l', t. auto.
+        + intros [H | (l' & t & [<- | Hl] & Hin & H)].
+          * left; left; exact H.
+          * left; right. exists t. auto.
+          * right. exists l', t. auto. }
+    intros x. rewrite H. simpl. tauto.
+  Qed.
+
+  Lemma merge_lists_NoDup ls : NoDup (ts_lookup (merge_lists to_lower ls)).
+  Proof.
+    unfold merge_lists.
+    assert (H : forall ls ts, NoDup (ts_lookup ts) -> NoDup (ts_lookup (fold_left (fun acc l => fold_left ts_put l acc) ls ts))).
+    { clear ls. induction ls as [|l ls IH]; intros ts Hts; simpl; [exact Hts|]. apply IH, put_all_lookup_NoDup, Hts. }
+    apply H. constructor.
+  Qed.
+
+  (* the order in which Merge walks the Go maps is immaterial for the resulting set *)
+  Lemma merge_lists_perm ls ls' : Forall2 (@Permutation tag) ls ls' ->
+    (forall q, ts_contains (merge_lists to_lower ls) q = ts_contains (merge_lists to_lower ls') q) /\
+    Permutation (ts_lookup (merge_lists to_lower ls)) (ts_lookup (merge_lists to_lower ls')).
+  Proof.
+    intros HP.
+    assert (Hmem : forall x, In x (ts_lookup (merge_lists to_lower ls)) <-> In x (ts_lookup (merge_lists to_lower ls'))).
+    { intros x. rewrite !merge_lists_In. split.
+      - intros (l & t & Hl & Ht & H).
+        destruct (Forall2_in_l _ _ _ _ HP Hl) as (l' & Hl' & Hp).
+        exists l', t. repeat split; auto. eapply Permutation_in; eassumption.
+      - intros (l' & t & Hl' & Ht & H).
+        destruct (Forall2_in_r _ _ _ _ HP Hl') as (l & Hl & Hp).
+        exists l, t. repeat split; auto. eapply Permutation_in; [apply Permutation_sym|]; eassumption. }
+    split.
+    - intros q. apply eq_true_iff_eq. rewrite !contains_In. apply Hmem.
+    - apply NoDup_Permutation; [apply merge_lists_NoDup | apply merge_lists_NoDup | exact Hmem].
+  Qed.
+End TagSets.
+
+(* ===================================================================== *)
+(* Part D — Summary.Tags() on bytes is the matcher's view                *)
+(* ===================================================================== *)
+
+(* the shape of a symbol cut out of a decoded string *)
+Definition sym_ok (x : sym) : Prop :=
+  (fst x < 128 /\ snd x = [fst x]) \/ (128 <= fst x /\ snd x <> [] /\ Forall (fun b => 128 <= b) (snd x)).
+
+Lemma wf_syms_ok l : wf_syms l -> Forall sym_ok l.
+Proof.
+  intros Hwf. apply Forall_forall. intros x Hin.
+  destruct (wf_syms_In x l Hwf Hin) as [H | [H1 H2]]; [left; exact H|].
+  right. repeat split; auto.
+  apply in_split in Hin as (l1 & l2 & ->). apply wf_syms_suffix in Hwf.
+  apply (wf_syms_cons_inv x l2 Hwf).
+Qed.
+
+Lemma sym_ok_ascii x c : sym_ok x -> fst x = c -> c < 128 -> snd x = [c].
+Proof. intros [[_ H] | [H _]] <- Hc; [exact H | lia]. Qed.
+
+Lemma raw_cons x l : raw (x :: l) = snd x ++ raw l.
+Proof. reflexivity. Qed.
+
+(* an ASCII byte occurs in the bytes only where a symbol has that code *)
+Lemma raw_no_byte l c : Forall sym_ok l -> c < 128 -> Forall (fun x => fst x <> c) l -> Forall (fun b => b <> c) (raw l).
+Proof.
+  intros Hok Hc Hne. induction Hok as [|x l Hx _ IH]; [constructor|].
+  inversion Hne; subst. rewrite raw_cons. apply Forall_app. split; [|apply IH; assumption].
+  destruct Hx as [[_ ->] | (_ & _ & Hb)]; [repeat constructor; assumption|].
+  eapply Forall_impl; [|exact Hb]. simpl. intros b Hb'. lia.
+Qed.
+
+Lemma has_byte_false c s : Forall (fun b => b <> c) s -> has_byte c s = false.
+Proof.
+  unfold has_byte. induction 1 as [|b s Hb _ IH]; [reflexivity|]. simpl. rewrite IH.
+  apply N.eqb_neq in Hb. rewrite N.eqb_sym in Hb. rewrite Hb. reflexivity.
+Qed.
+
+Section Bridge.
+  Variable is_letter : N -> bool.
+  Variable to_lower : N -> N.
+  Hypothesis dq_not_letter : is_letter ch_dq = false.
+  Hypothesis sq_not_letter : is_letter ch_sq = false.
+
+  Notation nc := (name_char is_letter sym fst).
+  Notation s_match_at := (match_at is_letter sym fst).
+  Notation s_find_all := (find_all is_letter sym fst).
+  Notation s_find_first := (find_first is_letter sym fst).
+  Notation all_name := (all_name is_letter sym fst).
+  Notation not_name_head := (not_name_head is_letter sym fst).
+
+  (* what group 2 and group 3 of a match look like *)
+  Definition val_shape (g2 g3 : list sym) : Prop :=
+    (g2 = [] /\ g3 = []) \/
+    (exists e q body cl, g2 = e :: g3 /\ g3 = q :: body ++ [cl] /\ fst e = ch_eq /\ (fst q = ch_dq \/ fst q = ch_sq) /\
+       fst cl = fst q /\ Forall (fun c => fst c <> fst q) body) \/
+    (exists e, g2 = e :: g3 /\ fst e = ch_eq /\ all_name g3).
+
+  Lemma match_value_shape after g2 g3 rest : not_name_head after ->
+    match_value is_letter sym fst after = (g2, g3, rest) -> after = g2 ++ rest /\ val_shape g2 g3.
+  Proof.
+    intros Hh. unfold match_value. destruct after as [|e r].
+    { intros [= <- <- <-]. split; [reflexivity | left; auto]. }
+    destruct (fst e =? ch_eq) eqn:Ee; [|intros [= <- <- <-]; split; [reflexivity | left; auto]].
+    apply N.eqb_eq in Ee.
+    assert (Hun : (let '(run, rest) := span nc r in (e :: run, run, rest)) = (g2, g3, rest) ->
+                  e :: r = g2 ++ rest /\ val_shape g2 g3).
+    { pose proof (span_eq sym nc r) as Hs. pose proof (span_fst_all sym nc r) as Hall.
+      destruct (span nc r) as [run rs]. simpl in Hs, Hall. intros [= <- <- <-]. split; [simpl; congruence|].
+      right; right. exists e. repeat split; auto. }
+    destruct r as [|q r']; [exact Hun|].
+    destruct ((fst q =? ch_dq) || (fst q =? ch_sq)) eqn:Eq; [|exact Hun].
+    destruct (until_quote sym fst (fst q) r') as [[[body cl] rest0]|] eqn:Eu; [|exact Hun].
+    intros [= <- <- <-]. apply until_quote_some in Eu as (-> & Hcl & Hb). split.
+    - simpl. rewrite <- app_assoc. reflexivity.
+    - right; left. exists e, q, body, cl. repeat split; auto.
+      apply orb_true_iff in Eq as [E1 | E1]; apply N.eqb_eq in E1; auto.
+  Qed.
+
+  Definition match_shape (m : rmatch sym) : Prop :=
+    exists h g2, m_all m = h :: m_name m ++ g2 /\ fst h = ch_hash /\ m_name m <> [] /\ all_name (m_name m) /\
+                 val_shape g2 (m_val m) /\ not_name_head g2.
+
+  Lemma match_at_shape s m rest : s_match_at s = Some (m, rest) -> s = m_all m ++ rest /\ match_shape m.
+  Proof.
+    unfold match_at. destruct s as [|h r]; [discriminate|].
+    destruct (fst h =? ch_hash) eqn:Eh; [|discriminate]. apply N.eqb_eq in Eh.
+    pose proof (span_eq sym nc r) as Hs. pose proof (span_fst_all sym nc r) as Hall.
+    pose proof (span_snd_head sym nc r) as Hhead.
+    destruct (span nc r) as [name after]. simpl in Hs, Hall, Hhead.
+    destruct name as [|n0 name]; [discriminate|].
+    destruct (match_value is_letter sym fst after) as [[g2 g3] rest0] eqn:Ev.
+    intros [= <- <-]. cbn [m_all m_name m_val].
+    destruct (match_value_shape _ _ _ _ Hhead Ev) as (-> & Hsh). split.
+    - rewrite Hs. simpl. rewrite <- !app_assoc. reflexivity.
+    - exists h, g2. repeat split; auto; [discriminate|]. destruct g2; [exact I | exact Hhead].
+  Qed.
+
+  Lemma find_all_In n : forall s m, (length s <= n)%nat -> In m (s_find_all s) ->
+    exists pre post, s = pre ++ m_all m ++ post /\ match_shape m.
+  Proof.
+    induction n as [|n IH]; intros s m Hn Hin.
+    - destruct s; [destruct Hin | simpl in Hn; lia].
+    - destruct s as [|c r]; [destruct Hin|].
+      rewrite find_all_cons in Hin. destruct (s_match_at (c :: r)) as [[m0 rest]|] eqn:E.
+      + pose proof (match_at_length _ _ _ _ _ _ E) as Hlen. destruct (match_at_shape _ _ _ E) as (Es & Hsh).
+        destruct Hin as [<- | Hin].
+        * exists [], rest. split; [exact Es | exact Hsh].
+        * destruct (IH rest m ltac:(simpl in *; lia) Hin) as (pre & post & -> & Hm).
+          exists (m_all m0 ++ pre), post. split; [|exact Hm]. rewrite Es, <- app_assoc. reflexivity.
+      + destruct (IH r m ltac:(simpl in *; lia) Hin) as (pre & post & -> & Hm).
+        exists (c :: pre), post. split; [reflexivity | exact Hm].
+  Qed.
+
+  (* the second regexp run, on group 0 of a match, finds that match again *)
+  Lemma rematch m : match_shape m -> s_match_at (m_all m) = Some (m, []).
+  Proof.
+    intros (h & g2 & Hall & Hh & Hne & Hname & Hv & Hg2). rewrite Hall. unfold match_at.
+    rewrite (proj2 (N.eqb_eq _ _) Hh).
+    rewrite (span_unique sym nc (m_name m) g2 Hname Hg2).
+    destruct (m_name m) as [|n0 name] eqn:En; [congruence|].
+    assert (Hmv : match_value is_letter sym fst g2 = (g2, m_val m, [])).
+    { unfold match_value. destruct Hv as [[-> ->] | [(e & q & body & cl & -> & Hg3 & He & Hq & Hcl & Hb) | (e & -> & He & Ha)]].
+      - reflexivity.
+      - rewrite Hg3. rewrite (proj2 (N.eqb_eq _ _) He).
+        replace ((fst q =? ch_dq) || (fst q =? ch_sq)) with true
+          by (symmetry; apply orb_true_iff; destruct Hq as [-> | ->]; [left | right]; reflexivity).
+        rewrite (proj2 (until_quote_some sym fst (fst q) (body ++ [cl]) body cl [])) by auto.
+        reflexivity.
+      - rewrite (proj2 (N.eqb_eq _ _) He).
+        assert (Hsp : span nc (m_val m) = (m_val m, [])).
+        { rewrite <- (app_nil_r (m_val m)) at 1. apply span_unique; [exact Ha | exact I]. }
+        destruct (m_val m) as [|q r'] eqn:Ev; [reflexivity|].
+        replace ((fst q =? ch_dq) || (fst q =? ch_sq)) with false.
+        + rewrite Hsp. reflexivity.
+        + symmetry. apply orb_false_iff. inversion Ha; subst.
+          split; apply N.eqb_neq; intros Hq; rewrite (quote_not_name is_letter sym fst dq_not_letter sq_not_letter) in H1 by auto; discriminate. }
+    rewrite Hmv. f_equal. f_equal. destruct m as [ma mn mv]. simpl in *. subst. reflexivity.
+  Qed.
+
+  Lemma find_first_head s m rest : s_match_at s = Some (m, rest) -> s_find_first s = Some m.
+  Proof. destruct s as [|c r]; [discriminate|]. simpl. intros ->. reflexivity. Qed.
+
+  Lemma value_syms_names run : all_name run -> value_syms sym fst run = run.
+  Proof.
+    intros Ha. destruct run as [|x run]; [reflexivity|]. unfold value_syms. inversion Ha; subst.
+    destruct (fst x =? ch_dq) eqn:E1;
+      [apply N.eqb_eq in E1; rewrite (quote_not_name is_letter sym fst dq_not_letter sq_not_letter) in H1 by auto; discriminate|].
+    destruct (fst x =? ch_sq) eqn:E2;
+      [apply N.eqb_eq in E2; rewrite (quote_not_name is_letter sym fst dq_not_letter sq_not_letter) in H1 by auto; discriminate|].
+    reflexivity.
+  Qed.
+
+  Lemma names_no_quote run q : all_name run -> q = ch_dq \/ q = ch_sq -> Forall (fun x : sym => fst x <> q) run.
+  Proof.
+    intros Ha Hq. eapply Forall_impl; [|exact Ha]. simpl. intros x Hx E.
+    rewrite (quote_not_name is_letter sym fst dq_not_letter sq_not_letter) in Hx by (destruct Hq; subst; auto). discriminate.
+  Qed.
+
+  (* the closure `value` of NewTagFromString computes, on bytes, the matcher's value; and it never holds both quotes *)
+  Lemma tag_value_raw g2 g3 : Forall sym_ok g3 -> val_shape g2 g3 ->
+    tag_value (raw g3) = raw (value_syms sym fst g3) /\
+    has_byte ch_dq (raw (value_syms sym fst g3)) && has_byte ch_sq (raw (value_syms sym fst g3)) = false.
+  Proof.
+    intros Hok [[_ ->] | [(e & q & body & cl & _ & -> & _ & Hq & Hcl & Hb) | (e & _ & _ & Ha)]].
+    - split; reflexivity.
+    - assert (Hokb : Forall sym_ok body).
+      { inversion Hok; subst. apply Forall_app in H2. tauto. }
+      assert (Hokq : sym_ok q) by (inversion Hok; assumption).
+      assert (Hokc : sym_ok cl).
+      { inversion Hok; subst. apply Forall_app in H2 as [_ H2]. inversion H2; assumption. }
+      assert (Hq128 : fst q < 128) by (destruct Hq as [-> | ->]; reflexivity).
+      pose proof (sym_ok_ascii q (fst q) Hokq eq_refl Hq128) as Hrq.
+      pose proof (sym_ok_ascii cl (fst q) Hokc Hcl Hq128) as Hrc.
+      pose proof (raw_no_byte body (fst q) Hokb Hq128 Hb) as Hnb.
+      assert (Hsyms : value_syms sym fst (q :: body ++ [cl]) = body).
+      { unfold value_syms. destruct Hq as [Hq | Hq]; rewrite Hq in *.
+        - rewrite N.eqb_refl. apply trim_quoted; assumption.
+        - change (ch_sq =? ch_dq) with false. rewrite N.eqb_refl. apply trim_quoted; assumption. }
+      assert (Hraw : raw (q :: body ++ [cl]) = fst q :: raw body ++ [fst q]).
+      { rewrite raw_cons, raw_app, Hrq. unfold raw at 2. simpl. rewrite app_nil_r. do 2 f_equal. exact Hrc. }
+      rewrite Hsyms, Hraw. split.
+      + unfold tag_value, trim_byte. destruct Hq as [Hq | Hq]; rewrite Hq in *.
+        * rewrite N.eqb_refl. apply (trim_quoted N (fun c => c)); auto.
+        * change (ch_sq =? ch_dq) with false. rewrite N.eqb_refl. apply (trim_quoted N (fun c => c)); auto.
+      + destruct Hq as [Hq | Hq]; rewrite Hq in Hnb.
+        * rewrite (has_byte_false _ _ Hnb). reflexivity.
+        * rewrite (has_byte_false _ _ Hnb). apply andb_false_r.
+    - rewrite (value_syms_names g3 Ha).
+      assert (Hn1 : Forall (fun b => b <> ch_dq) (raw g3)).
+      { apply raw_no_byte; [exact Hok | reflexivity | apply names_no_quote; auto]. }
+      assert (Hn2 : Forall (fun b => b <> ch_sq) (raw g3)).
+      { apply raw_no_byte; [exact Hok | reflexivity | apply names_no_quote; auto]. }
+      split; [|rewrite (has_byte_false _ _ Hn1); reflexivity].
+      unfold tag_value. destruct (raw g3) as [|c r]; [reflexivity|].
+      inversion Hn1; subst. inversion Hn2; subst.
+      apply N.eqb_neq in H1, H3. rewrite H1, H3. reflexivity.
+  Qed.
+
+  (* NewTagFromString applied to group 0 of a match of a decoded line returns the tag the match denotes *)
+  Lemma new_tag_of_match line m : In m (s_find_all (decode_syms line)) ->
+    new_tag_from_string is_letter to_lower (raw (m_all m)) = Ok (Some (tag_of_match to_lower m)).
+  Proof.
+    intros Hin.
+    destruct (find_all_In _ _ m (le_n _) Hin) as (pre & post & Es & Hsh).
+    pose proof (wf_decode_syms line) as Hwf. rewrite Es in Hwf.
+    pose proof (wf_syms_middle _ _ _ Hwf) as Hwm.
+    pose proof (wf_syms_ok _ Hwm) as Hok.
+    destruct Hsh as (h & g2 & Hall & Hh & Hne & Hname & Hv & Hg2).
+    assert (Hsh : match_shape m) by (exists h, g2; repeat split; auto).
+    assert (Hokh : sym_ok h) by (rewrite Hall in Hok; inversion Hok; assumption).
+    assert (Hrawh : raw (m_all m) = ch_hash :: raw (m_name m ++ g2)).
+    { rewrite Hall, raw_cons. rewrite (sym_ok_ascii h ch_hash Hokh Hh eq_refl). reflexivity. }
+    unfold new_tag_from_string. rewrite Hrawh. rewrite N.eqb_refl. rewrite <- Hrawh.
+    rewrite Hwm. rewrite (find_first_head _ _ _ (rematch m Hsh)).
+    rewrite Nat.eqb_refl.
+    assert (Hokv : Forall sym_ok (m_val m)).
+    { rewrite Hall in Hok. inversion Hok; subst. apply Forall_app in H2 as [_ H2].
+      destruct Hv as [[_ ->] | [(e & q & body & cl & -> & _) | (e & -> & _)]]; [constructor | inversion H2; assumption | inversion H2; assumption]. }
+    destruct (tag_value_raw g2 (m_val m) Hokv Hv) as (Htv & Hnp).
+    unfold new_tag_or_panic. rewrite Htv, Hnp. reflexivity.
+  Qed.
+
+  (* ---- folding ---- *)
+
+  Lemma fold_o_ok {X Y} (f : Y -> X -> outcome Y) (g : Y -> X -> Y) l :
+    (forall acc x, In x l -> f acc x = Ok (g acc x)) -> forall acc, fold_o f l acc = Ok (fold_left g l acc).
+  Proof.
+    induction l as [|x l IH]; intros H acc; [reflexivity|]. simpl.
+    rewrite H by (left; reflexivity). simpl. apply IH. intros a y Hy. apply H. right. exact Hy.
+  Qed.
+
+  Lemma line_tags_o_eq ts line :
+    line_tags_o is_letter to_lower ts line = Ok (fold_left (ts_put to_lower) (line_tags is_letter to_lower line) ts).
+  Proof.
+    unfold line_tags_o, line_tags.
+    rewrite (fold_o_ok _ (fun acc m => ts_put to_lower acc (tag_of_match to_lower m))).
+    - f_equal. generalize (s_find_all (decode_syms line)) as l. intros l. revert ts.
+      induction l as [|m l IH]; intros ts; [reflexivity|]. simpl. apply IH.
+    - intros acc m Hin. unfold put_match. rewrite (new_tag_of_match line m Hin). reflexivity.
+  Qed.
+
+  (* Summary.Tags() never panics and is the set of the tags the matcher's matches denote, in order *)
+  Theorem summary_tags_o_eq lines :
+    summary_tags_o is_letter to_lower lines = Ok (summary_tags is_letter to_lower lines).
+  Proof.
+    unfold summary_tags_o, summary_tags, found_tags.
+    rewrite (fold_o_ok _ (fun acc line => fold_left (ts_put to_lower) (line_tags is_letter to_lower line) acc)).
+    - f_equal. generalize (ts_empty) as ts. induction lines as [|l lines IH]; intros ts; [reflexivity|].
+      simpl. rewrite fold_left_app. apply IH.
+    - intros acc line _. apply line_tags_o_eq.
+  Qed.
+End Bridge.
+
+(* ===================================================================== *)
+(* Part C — AggregateTotalsByTags                                        *)
+(* ===================================================================== *)
+
+(* ---- sorting ---- *)
+
+Lemma bytes_ltb_asym a : forall b, bytes_ltb a b = true -> bytes_ltb b a = false.
+Proof.
+  induction a as [|x a IH]; intros [|y b]; simpl; try congruence.
+  destruct (x <? y) eqn:E1; destruct (y <? x) eqn:E2; try congruence; try lia.
+  apply IH.
+Qed.
+
+Lemma bytes_ltb_irrefl a : bytes_ltb a a = false.
+Proof. induction a as [|x a IH]; simpl; [reflexivity|]. rewrite N.ltb_irrefl. exact IH. Qed.
+
+Lemma bytes_ltb_trans a : forall b c, bytes_ltb a b = true -> bytes_ltb b c = true -> bytes_ltb a c = true.
+Proof.
+  induction a as [|x a IH]; intros [|y b] [|z c]; simpl; try congruence.
+  destruct (x <? y) eqn:E1; destruct (y <? x) eqn:E2; destruct (y <? z) eqn:E3; destruct (z <? y) eqn:E4;
+  destruct (x <? z) eqn:E5; destruct (z <? x) eqn:E6; try congruence; try lia.
+  apply IH.
+Qed.
+
+Lemma bytes_ltb_total a : forall b, bytes_ltb a b = false -> bytes_ltb b a = false -> a = b.
+Proof.
+  induction a as [|x a IH]; intros [|y b]; simpl; try congruence.
+  destruct (x <? y) eqn:E1; destruct (y <? x) eqn:E2; try congruence.
+  intros H1 H2. assert (x = y) by lia. subst. f_equal. apply IH; assumption.
+Qed.
+
+Section Sorting.
+  Context {X : Type} (lt : X -> X -> bool).
+  Hypothesis lt_asym : forall a b, lt a b = true -> lt b a = false.
+  Definition le_of (a b : X) : Prop := lt b a = false.
+
+  Lemma insert_by_In x l y : In y (insert_by lt x l) <-> y = x \/ In y l.
+  Proof.
+    induction l as [|z l IH]; simpl; [intuition congruence|].
+    destruct (lt z x); simpl; [rewrite IH|]; split; intuition congruence.
+  Qed.
+
+  Lemma insert_by_perm x l : Permutation (insert_by lt x l) (x :: l).
+  Proof.
+    induction l as [|z l IH]; simpl; [reflexivity|].
+    destruct (lt z x); [|reflexivity]. rewrite IH. apply perm_swap.
+  Qed.
+
+  Lemma sort_by_perm l : Permutation (sort_by lt l) l.
+  Proof. induction l as [|x l IH]; simpl; [reflexivity|]. rewrite insert_by_perm. constructor. exact IH. Qed.
+
+  Lemma insert_by_hdrel y x l : HdRel le_of y l -> le_of y x -> HdRel le_of y (insert_by lt x l).
+  Proof. intros H Hx. destruct l as [|z l]; simpl; [constructor; exact Hx|]. destruct (lt z x); constructor; [inversion H; assumption | exact Hx]. Qed.
+
+  Lemma insert_by_sorted x l : Sorted le_of l -> Sorted le_of (insert_by lt x l).
+  Proof.
+    induction 1 as [|z l Hs IH Hh]; simpl; [repeat constructor|].
+    destruct (lt z x) eqn:E.
+    - constructor; [exact IH|]. apply insert_by_hdrel; [exact Hh|]. unfold le_of. apply lt_asym. exact E.
+    - constructor; [constructor; assumption|]. constructor. exact E.
+  Qed.
+
+  Lemma sort_by_sorted l : Sorted le_of (sort_by lt l).
+  Proof. induction l as [|x l IH]; simpl; [constructor|]. apply insert_by_sorted. exact IH. Qed.
+End Sorting.
+
+(* ---- the statistics dictionary ---- *)
+
+Open Scope Z_scope.
+
+Definition stat_find (k : tag) (l : list stat) : option (Z * Z) :=
+  match find (fun s => tag_eqb (st_tag s) k) l with
+  | Some s => Some (st_total s, st_count s)
+  | None => None
+  end.
+
+Definition bump (o : option (Z * Z)) (d : Z) : option (Z * Z) :=
+  match o with Some (s, c) => Some (s + d, c + 1) | None => Some (d, 1) end.
+
+Definition tot (k : tag) (l : list stat) : Z := match stat_find k l with Some (s, _) => s | None => 0 end.
+
+Definition tags_of (l : list stat) : list tag := map st_tag l.
+
+(* sum and number of a list of durations, None when there is none *)
+Definition agg_expect (ms : list Z) : option (Z * Z) :=
+  match ms with [] => None | _ => Some (fold_right Z.add 0 ms, Z.of_nat (length ms)) end.
+
+Lemma add64_some a b v : add64 a b = Some v -> v = a + b.
+Proof. unfold add64. destruct (sm_ok a && sm_ok b && sm_ok (a + b)); congruence. Qed.
+
+Lemma dur_plus_ok a b v : dur_plus a b = Ok v -> v = a + b.
+Proof. unfold dur_plus. destruct (add64 a b) eqn:E; [|discriminate]. intros [= <-]. apply add64_some. exact E. Qed.
+
+Lemma dur_plus_fits a b : Z.abs a <= max_int64 -> Z.abs b <= max_int64 -> Z.abs (a + b) <= max_int64 ->
+  dur_plus a b = Ok (a + b).
+Proof.
+  intros Ha Hb Hab. unfold dur_plus, add64, sm_ok, sm_min.
+  replace ((- max_int64 <=? a) && (a <=? max_int64) && ((- max_int64 <=? b) && (b <=? max_int64)) &&
+           ((- max_int64 <=? a + b) && (a + b <=? max_int64))) with true by lia.
+  reflexivity.
+Qed.
+
+Lemma stat_find_cons k s l :
+  stat_find k (s :: l) = if tag_eqb (st_tag s) k then Some (st_total s, st_count s) else stat_find k l.
+Proof. unfold stat_find. simpl. destruct (tag_eqb (st_tag s) k); reflexivity. Qed.
+
+Lemma stat_find_none k l : ~ In k (tags_of l) -> stat_find k l = None.
+Proof.
+  induction l as [|s l IH]; intros H; [reflexivity|]. rewrite stat_find_cons.
+  destruct (tag_eqb (st_tag s) k) eqn:E.
+  - apply tag_eqb_eq in E. exfalso. apply H. left. exact E.
+  - apply IH. intros Hin. apply H. right. exact Hin.
+Qed.
+
+Section StatsPut.
+  Variable is_letter : N -> bool.
+  Variable to_lower : N -> N.
+  Notation stats_put := (stats_put).
+
+  Lemma stats_put_ok tbt : forall t d tbt', stats_put tbt t d = Ok tbt' ->
+    (forall k, stat_find k tbt' = if tag_eqb t k then bump (stat_find k tbt) d else stat_find k tbt) /\
+    (forall x, In x (tags_of tbt') <-> x = t \/ In x (tags_of tbt)) /\
+    (NoDup (tags_of tbt) -> NoDup (tags_of tbt')).
+  Proof.
+    induction tbt as [|s r IH]; intros t d tbt'; simpl.
+    - destruct (dur_plus 0 d) as [v| |] eqn:E; simpl; try discriminate. intros [= <-].
+      apply dur_plus_ok in E. subst v. split; [|split].
+      + intros k. rewrite stat_find_cons. simpl. destruct (tag_eqb t k); reflexivity.
+      + intros x. simpl. intuition congruence.
+      + intros _. simpl. repeat constructor. intros [].
+    - destruct (tag_eqb (st_tag s) t) eqn:Et.
+      + apply tag_eqb_eq in Et. destruct (dur_plus (st_total s) d) as [v| |] eqn:E; simpl; try discriminate.
+        intros [= <-]. apply dur_plus_ok in E. subst v. split; [|split].
+        * intros k. rewrite !stat_find_cons. simpl. rewrite Et. destruct (tag_eqb t k); reflexivity.
+        * intros x. simpl. intuition congruence.
+        * simpl. auto.
+      + destruct (stats_put r t d) as [r'| |] eqn:E; simpl; try discriminate. intros [= <-].
+        destruct (IH _ _ _ E) as (Hf & Hin & Hnd). split; [|split].
+        * intros k. rewrite !stat_find_cons, Hf. destruct (tag_eqb (st_tag s) k) eqn:Es; [|reflexivity].
+          apply tag_eqb_eq in Es. subst k. rewrite tag_eqb_sym, Et. reflexivity.
+        * intros x. simpl. rewrite Hin. tauto.
+        * simpl. intros Hn. inversion Hn; subst. constructor; [|auto].
+          rewrite Hin. intros [E0 | H]; [rewrite E0, tag_eqb_refl in Et; discriminate | contradiction].
+  Qed.
+
+  Lemma stats_put_exists tbt : forall t d, Z.abs (tot t tbt) + Z.abs d <= max_int64 ->
+    exists tbt', stats_put tbt t d = Ok tbt'.
+  Proof.
+    induction tbt as [|s r IH]; intros t d Hb; simpl.
+    - unfold tot in Hb. simpl in Hb. rewrite dur_plus_fits by (unfold max_int64 in *; lia). simpl. eauto.
+    - unfold tot in Hb. rewrite stat_find_cons in Hb. destruct (tag_eqb (st_tag s) t) eqn:Et.
+      + rewrite dur_plus_fits by lia. simpl. eauto.
+      + destruct (IH t d Hb) as (r' & ->). simpl. eauto.
+  Qed.
+
+  (* one entry: every key of the entry's merged tag set is bumped once *)
+  Lemma keys_fold_ok d keys : NoDup keys -> forall acc acc',
+    fold_o (fun a t => stats_put a t d) keys acc = Ok acc' ->
+    (forall k, stat_find k acc' = if existsb (tag_eqb k) keys then bump (stat_find k acc) d else stat_find k acc) /\
+    (NoDup (tags_of acc) -> NoDup (tags_of acc')).
+  Proof.
+    induction 1 as [|t keys Hnin _ IH]; intros acc acc'; simpl.
+    - intros [= <-]. split; auto.
+    - destruct (stats_put acc t d) as [acc1| |] eqn:E; simpl; try discriminate. intros H.
+      destruct (stats_put_ok _ _ _ _ E) as (Hf1 & _ & Hn1). destruct (IH _ _ H) as (Hf2 & Hn2).
+      split; [|auto]. intros k. rewrite Hf2, Hf1. rewrite (tag_eqb_sym k t).
+      destruct (tag_eqb t k) eqn:Et; simpl; [|reflexivity].
+      apply tag_eqb_eq in Et. subst k.
+      replace (existsb (tag_eqb t) keys) with false; [reflexivity|].
+      symmetry. apply not_true_is_false. intros Hex. apply existsb_tag_In in Hex. contradiction.
+  Qed.
+
+  Lemma tot_bump k acc d o : stat_find k acc = bump o d ->
+    tot k acc = (match o with Some (s, _) => s | None => 0 end) + d.
+  Proof. unfold tot. intros ->. destruct o as [[s c]|]; simpl; lia. Qed.
+
+  Lemma keys_fold_exists d keys : NoDup keys -> forall acc,
+    (forall k, In k keys -> Z.abs (tot k acc) + Z.abs d <= max_int64) ->
+    exists acc', fold_o (fun a t => stats_put a t d) keys acc = Ok acc'.
+  Proof.
+    induction 1 as [|t keys Hnin _ IH]; intros acc Hb; simpl; [eauto|].
+    destruct (stats_put_exists acc t d (Hb t (or_introl eq_refl))) as (acc1 & E). rewrite E. simpl.
+    apply IH. intros k Hk. destruct (stats_put_ok _ _ _ _ E) as (Hf & _).
+    assert (Hne : tag_eqb t k = false).
+    { apply tag_eqb_neq. intros ->. contradiction. }
+    unfold tot. rewrite Hf, Hne. apply Hb. right. exact Hk.
+  Qed.
+End StatsPut.
+
+Section Aggregate.
+  Variable is_letter : N -> bool.
+  Variable to_lower : N -> N.
+  Hypothesis dq_not_letter : is_letter ch_dq = false.
+  Hypothesis sq_not_letter : is_letter ch_sq = false.
+  Hypothesis lower_idem : forall r, to_lower (to_lower r) = to_lower r.
+  Hypothesis lower_scalar : forall r, is_scalar r = true -> is_scalar (to_lower r) = true.
+
+  Notation found := (found_tags is_letter to_lower).
+  Notation s_tags := (summary_tags is_letter to_lower).
+
+  (* the tags an entry carries: those of its record's summary and its own *)
+  Definition entry_found (r : record) (e : entry) : list tag := found (rec_summary r) ++ found (e_summary e).
+
+  Definition entry_keys (r : record) (e : entry) : list tag :=
+    ts_lookup (ts_merge to_lower [s_tags (rec_summary r); s_tags (e_summary e)]).
+
+  Lemma found_norm lines : Forall (tag_norm to_lower) (found lines).
+  Proof.
+    unfold found_tags. apply Forall_forall. intros t Hin. apply in_flat_map in Hin as (l & _ & Hin).
+    unfold line_tags in Hin. apply in_map_iff in Hin as (m & <- & _). apply mk_tag_norm; assumption.
+  Qed.
+
+  Lemma entry_found_norm r e : Forall (tag_norm to_lower) (entry_found r e).
+  Proof. unfold entry_found. apply Forall_app. split; apply found_norm. Qed.
+
+  Lemma summary_lookup_In lines x :
+    In x (ts_lookup (s_tags lines)) <-> exists t, In t (found lines) /\ (x = t \/ x = bare to_lower t).
+  Proof. unfold summary_tags. rewrite put_all_lookup_In. simpl. tauto. Qed.
+
+  Lemma entry_keys_In r e k : In k (entry_keys r e) <-> carries (entry_found r e) k = true.
+  Proof.
+    unfold entry_keys, ts_merge. rewrite merge_lists_In, (carries_iff to_lower) by apply entry_found_norm.
+    unfold entry_found. split.
+    - intros (l & t & Hl & Ht & Hk). simpl in Hl.
+      assert (Hex : exists u, In u (found (rec_summary r) ++ found (e_summary e)) /\ (t = u \/ t = bare to_lower u)).
+      { destruct Hl as [<- | [<- | []]]; apply summary_lookup_In in Ht as (u & Hu & H); exists u; (split; [|exact H]);
+        apply in_or_app; [left | right]; exact Hu. }
+      destruct Hex as (u & Hu & Htu). exists u. split; [exact Hu|].
+      destruct Hk as [-> | ->]; destruct Htu as [-> | ->]; auto.
+      right. apply bare_bare; assumption.
+    - intros (u & Hu & Hk). apply in_app_or in Hu as [Hu | Hu].
+      + exists (ts_lookup (s_tags (rec_summary r))), u. split; [left; reflexivity|]. split; [|exact Hk].
+        apply summary_lookup_In. exists u. auto.
+      + exists (ts_lookup (s_tags (e_summary e))), u. split; [right; left; reflexivity|]. split; [|exact Hk].
+        apply summary_lookup_In. exists u. auto.
+  Qed.
+
+  Lemma entry_keys_NoDup r e : NoDup (entry_keys r e).
+  Proof. apply merge_lists_NoDup. Qed.
+
+  Lemma entry_keys_existsb r e k : existsb (tag_eqb k) (entry_keys r e) = carries (entry_found r e) k.
+  Proof. apply eq_true_iff_eq. rewrite existsb_tag_In. apply entry_keys_In. Qed.
+
+  Lemma entry_put_eq r acc e :
+    entry_put is_letter to_lower r acc e = fold_o (fun a t => stats_put a t (entry_minutes e)) (entry_keys r e) acc.
+  Proof.
+    unfold entry_put. rewrite !(summary_tags_o_eq is_letter to_lower dq_not_letter sq_not_letter). reflexivity.
+  Qed.
+
+  Definition entry_step (r : record) (k : tag) (o : option (Z * Z)) (e : entry) : option (Z * Z) :=
+    if carries (entry_found r e) k then bump o (entry_minutes e) else o.
+
+  Lemma entries_fold_ok r es : forall acc acc', NoDup (tags_of acc) ->
+    fold_o (entry_put is_letter to_lower r) es acc = Ok acc' ->
+    NoDup (tags_of acc') /\ forall k, stat_find k acc' = fold_left (entry_step r k) es (stat_find k acc).
+  Proof.
+    induction es as [|e es IH]; intros acc acc' Hn; simpl.
+    - intros [= <-]. auto.
+    - destruct (entry_put is_letter to_lower r acc e) as [acc1| |] eqn:E; simpl; try discriminate. intros H.
+      rewrite entry_put_eq in E. destruct (keys_fold_ok _ _ (entry_keys_NoDup r e) _ _ E) as (Hf & Hn1).
+      destruct (IH _ _ (Hn1 Hn) H) as (Hn2 & Hf2). split; [exact Hn2|].
+      intros k. rewrite Hf2, Hf, entry_keys_existsb. reflexivity.
+  Qed.
+
+  Lemma records_fold_ok rs : forall acc acc', NoDup (tags_of acc) ->
+    fold_o (record_put is_letter to_lower) rs acc = Ok acc' ->
+    NoDup (tags_of acc') /\
+    forall k, stat_find k acc' = fold_left (fun o r => fold_left (entry_step r k) (rec_entries r) o) rs (stat_find k acc).
+  Proof.
+    induction rs as [|r rs IH]; intros acc acc' Hn; simpl.
+    - intros [= <-]. auto.
+    - destruct (record_put is_letter to_lower acc r) as [acc1| |] eqn:E; simpl; try discriminate. intros H.
+      unfold record_put in E. destruct (entries_fold_ok _ _ _ _ Hn E) as (Hn1 & Hf1).
+      destruct (IH _ _ Hn1 H) as (Hn2 & Hf2). split; [exact Hn2|]. intros k. rewrite Hf2, Hf1. reflexivity.
+  Qed.
+
+  (* ---- from the folds to sums ---- *)
+
+  (* the durations of the entries that carry key k, in file order *)
+  Definition matching (rs : list record) (k : tag) : list Z :=
+    flat_map (fun r => map entry_minutes (filter (fun e => carries (entry_found r e) k) (rec_entries r))) rs.
+
+  Lemma fold_bump ms : forall o, fold_left bump ms o =
+    match o with
+    | None => agg_expect ms
+    | Some (s, c) => Some (s + fold_right Z.add 0 ms, c + Z.of_nat (length ms))
+    end.
+  Proof.
+    induction ms as [|m ms IH]; intros o.
+    - destruct o as [[s c]|]; simpl; [f_equal; f_equal; lia | reflexivity].
+    - cbn [fold_left]. rewrite IH. destruct o as [[s c]|]; cbn [bump agg_expect fold_right length]; f_equal; f_equal; lia.
+  Qed.
+
+  Lemma entries_fold_bump r k es : forall o,
+    fold_left (entry_step r k) es o =
+    fold_left bump (map entry_minutes (filter (fun e => carries (entry_found r e) k) es)) o.
+  Proof.
+    induction es as [|e es IH]; intros o; [reflexivity|]. simpl. unfold entry_step at 2.
+    destruct (carries (entry_found r e) k); simpl; apply IH.
+  Qed.
+
+  Lemma records_fold_bump k rs : forall o,
+    fold_left (fun o r => fold_left (entry_step r k) (rec_entries r) o) rs o = fold_left bump (matching rs k) o.
+  Proof.
+    induction rs as [|r rs IH]; intros o; [reflexivity|]. simpl.
+    unfold matching. simpl. rewrite fold_left_app, IH, entries_fold_bump. reflexivity.
+  Qed.
+
+  (* ---- sorting keeps the dictionary ---- *)
+
+  Lemma stat_asym a b : stat_ltb a b = true -> stat_ltb b a = false.
+  Proof. unfold stat_ltb, tag_ltb. apply bytes_ltb_asym. Qed.
+
+  Lemma stat_find_insert k x l : ~ In (st_tag x) (tags_of l) ->
+    stat_find k (insert_by stat_ltb x l) = stat_find k (x :: l).
+  Proof.
+    induction l as [|y l IH]; intros Hn; [reflexivity|]. simpl.
+    destruct (stat_ltb y x); [|reflexivity].
+    rewrite stat_find_cons, IH by (intros H; apply Hn; right; exact H). rewrite !stat_find_cons.
+    destruct (tag_eqb (st_tag y) k) eqn:E1; destruct (tag_eqb (st_tag x) k) eqn:E2; try reflexivity.
+    apply tag_eqb_eq in E1, E2. exfalso. apply Hn. left. congruence.
+  Qed.
+
+  Lemma stat_find_sort k l : NoDup (tags_of l) -> stat_find k (sort_by stat_ltb l) = stat_find k l.
+  Proof.
+    induction l as [|x l IH]; intros Hn; [reflexivity|]. simpl. inversion Hn; subst.
+    rewrite stat_find_insert.
+    - rewrite !stat_find_cons, IH by assumption. reflexivity.
+    - intros Hin. apply H1. unfold tags_of in *. apply in_map_iff in Hin as (y & Ey & Hy).
+      apply in_map_iff. exists y. split; [exact Ey|]. eapply Permutation_in; [apply sort_by_perm | exact Hy].
+  Qed.
+
+  (* THEOREM 3: whenever `klog tags` returns, every tag and every tag=value reported carries exactly the sum and the
+     number of the entries it selects (each entry once), nothing else is reported, and the list is sorted by key *)
+  Theorem tag_totals rs out : aggregate_o is_letter to_lower rs = Ok out ->
+    (forall k, stat_find k out = agg_expect (matching rs k)) /\
+    Sorted (fun a b => bytes_ltb (tag_key (st_tag b)) (tag_key (st_tag a)) = false) out /\
+    NoDup (tags_of out).
+  Proof.
+    unfold aggregate_o. destruct (fold_o (record_put is_letter to_lower) rs []) as [tbt| |] eqn:E; simpl; try discriminate.
+    intros [= <-]. destruct (records_fold_ok rs [] tbt (NoDup_nil _) E) as (Hn & Hf). split; [|split].
+    - intros k. rewrite stat_find_sort, Hf, records_fold_bump, fold_bump by exact Hn. reflexivity.
+    - apply (sort_by_sorted stat_ltb stat_asym).
+    - unfold tags_of. eapply Permutation_NoDup; [|exact Hn]. apply Permutation_map, Permutation_sym, sort_by_perm.
+  Qed.
+
+  (* ---- the no-overflow guard ---- *)
+
+  Definition sum_abs_entries (es : list entry) : Z := fold_right Z.add 0 (map (fun e => Z.abs (entry_minutes e)) es).
+  Definition sum_abs (rs : list record) : Z := fold_right Z.add 0 (map (fun r => sum_abs_entries (rec_entries r)) rs).
+
+  Lemma sum_abs_entries_nonneg es : 0 <= sum_abs_entries es.
+  Proof. induction es; unfold sum_abs_entries in *; simpl; lia. Qed.
+
+  Lemma sum_abs_nonneg rs : 0 <= sum_abs rs.
+  Proof. induction rs as [|r rs IH]; unfold sum_abs in *; simpl; [lia|]. pose proof (sum_abs_entries_nonneg (rec_entries r)). lia. Qed.
+
+  Lemma entries_fold_exists r es : forall acc B, 0 <= B ->
+    (forall k, Z.abs (tot k acc) <= B) -> B + sum_abs_entries es <= max_int64 ->
+    exists acc', fold_o (entry_put is_letter to_lower r) es acc = Ok acc' /\
+                 forall k, Z.abs (tot k acc') <= B + sum_abs_entries es.
+  Proof.
+    induction es as [|e es IH]; intros acc B HB Hb Hs.
+    - exists acc. split; [reflexivity|]. intros k. unfold sum_abs_entries. simpl. rewrite Z.add_0_r. apply Hb.
+    - unfold sum_abs_entries in Hs. simpl in Hs. fold (sum_abs_entries es) in Hs.
+      pose proof (sum_abs_entries_nonneg es) as Hnn.
+      simpl. rewrite entry_put_eq.
+      destruct (keys_fold_exists (entry_minutes e) _ (entry_keys_NoDup r e) acc) as (acc1 & E).
+      { intros k _. specialize (Hb k). lia. }
+      rewrite E. simpl.
+      destruct (keys_fold_ok _ _ (entry_keys_NoDup r e) _ _ E) as (Hf & _).
+      destruct (IH acc1 (B + Z.abs (entry_minutes e))) as (acc' & E' & Hb').
+      + lia.
+      + intros k. specialize (Hb k). unfold tot in *. rewrite Hf.
+        destruct (existsb (tag_eqb k) (entry_keys r e)); [|lia].
+        destruct (stat_find k acc) as [[s c]|]; simpl in *; lia.
+      + lia.
+      + exists acc'. split; [exact E'|]. intros k. specialize (Hb' k).
+        unfold sum_abs_entries. simpl. fold (sum_abs_entries es). lia.
+  Qed.
+
+  Lemma records_fold_exists rs : forall acc B, 0 <= B ->
+    (forall k, Z.abs (tot k acc) <= B) -> B + sum_abs rs <= max_int64 ->
+    exists acc', fold_o (record_put is_letter to_lower) rs acc = Ok acc'.
+  Proof.
+    induction rs as [|r rs IH]; intros acc B HB Hb Hs; simpl; [eauto|].
+    unfold sum_abs in Hs. simpl in Hs. fold (sum_abs rs) in Hs.
+    pose proof (sum_abs_nonneg rs). pose proof (sum_abs_entries_nonneg (rec_entries r)).
+    unfold record_put at 1.
+    destruct (entries_fold_exists r (rec_entries r) acc B HB Hb ltac:(lia)) as (acc1 & E & Hb1).
+    rewrite E. simpl. apply (IH acc1 (B + sum_abs_entries (rec_entries r))); [lia | exact Hb1 | lia].
+  Qed.
+
+  (* as long as the absolute durations of all entries together fit an int64, `klog tags` returns *)
+  Theorem tag_totals_no_overflow rs : sum_abs rs <= max_int64 -> exists out, aggregate_o is_letter to_lower rs = Ok out.
+  Proof.
+    intros H. destruct (records_fold_exists rs [] 0 ltac:(lia)) as (tbt & E).
+    - intros k. unfold tot. simpl. lia.
+    - lia.
+    - unfold aggregate_o. rewrite E. simpl. eauto.
+  Qed.
+End Aggregate.
+
+(* ===================================================================== *)
+(* Part E — the instance at the Go toolchain's Unicode tables            *)
+(* ===================================================================== *)
+
+Open Scope N_scope.
+
+(* ---- the lower-case table: every rune it moves is listed in its domain ---- *)
+
+Definition run_members (x : N * N * N * N) : list N :=
+  let '(lo, hi, step, _) := x in
+  map (fun k => lo + N.of_nat k * step) (seq 0 (S (N.to_nat ((hi - lo) / step)))).
+
+Definition lower_domain (T : list (N * N * N * N)) : list N := flat_map run_members T.
+
+Definition steps_ok (T : list (N * N * N * N)) : bool := forallb (fun x => let '(_, _, step, _) := x in negb (step =? 0)) T.
+
+Ltac Zify.zify_post_hook ::= Z.to_euclidean_division_equations.
+
+Lemma lower_moved_in_domain T r : steps_ok T = true -> lower_lookup T r <> r -> In r (lower_domain T).
+Proof.
+  induction T as [|[[[lo hi] step] tgt] T IH]; intros Hs Hm; [simpl in Hm; congruence|].
+  cbn [steps_ok forallb] in Hs. apply andb_true_iff in Hs as [Hstep Hs]. apply negb_true_iff, N.eqb_neq in Hstep.
+  cbn [lower_lookup] in Hm.
+  change (lower_domain ((lo, hi, step, tgt) :: T)) with (run_members (lo, hi, step, tgt) ++ lower_domain T).
+  apply in_or_app.
+  destruct (r <? lo) eqn:E1; [congruence|].
+  destruct ((r <=? hi) && ((r - lo) mod step =? 0)) eqn:E2; [|right; apply IH; assumption].
+  left. apply andb_true_iff in E2 as [E2 E3]. apply N.leb_le in E2. apply N.eqb_eq in E3. apply N.ltb_ge in E1.
+  unfold run_members. apply in_map_iff. exists (N.to_nat ((r - lo) / step)). split.
+  - rewrite N2Nat.id. pose proof (N.div_mod (r - lo) step Hstep) as Hdm. rewrite E3, N.add_0_r, N.mul_comm in Hdm.
+    rewrite <- Hdm. clear Hdm E3. lia.
+  - apply in_seq. split; [apply Nat.le_0_l|]. clear E3 Hm.
+    assert (Hle : (r - lo) / step <= (hi - lo) / step) by (apply N.div_le_mono; [exact Hstep | lia]).
+    revert Hle. generalize ((r - lo) / step) ((hi - lo) / step). intros a b Hab. lia.
+Qed.
+
+Lemma lower_table_forall (P : N -> bool) T :
+  steps_ok T = true -> forallb (fun r => P r) (lower_domain T) = true ->
+  forall r, lower_lookup T r <> r -> P r = true.
+Proof.
+  intros Hs Hall r Hm. rewrite forallb_forall in Hall. apply Hall. apply lower_moved_in_domain; assumption.
+Qed.
+
+Lemma go_steps_ok : steps_ok unicode_lower = true.
+Proof. vm_compute. reflexivity. Qed.
+
+(* unicode.ToLower is idempotent *)
+Lemma go_lower_idem r : go_to_lower (go_to_lower r) = go_to_lower r.
+Proof.
+  destruct (N.eq_dec (go_to_lower r) r) as [E | E]; [rewrite !E; reflexivity|].
+  apply N.eqb_eq.
+  apply (lower_table_forall (fun r => go_to_lower (go_to_lower r) =? go_to_lower r) unicode_lower go_steps_ok); [|exact E].
+  vm_compute. reflexivity.
+Qed.
+
+(* unicode.ToLower maps scalar values to scalar values *)
+Lemma go_lower_scalar r : is_scalar r = true -> is_scalar (go_to_lower r) = true.
+Proof.
+  intros Hr. destruct (N.eq_dec (go_to_lower r) r) as [E | E]; [rewrite E; exact Hr|].
+  apply (lower_table_forall (fun r => is_scalar (go_to_lower r)) unicode_lower go_steps_ok); [|exact E].
+  vm_compute. reflexivity.
+Qed.
+
+Lemma go_dq_not_letter : go_is_letter ch_dq = false.
+Proof. vm_compute. reflexivity. Qed.
+Lemma go_sq_not_letter : go_is_letter ch_sq = false.
+Proof. vm_compute. reflexivity. Qed.
+
+(* the linear table lookup is membership in one of the ranges when the table is sorted *)
+Fixpoint ranges_sorted (l : list (N * N)) : bool :=
+  match l with
+  | (lo, hi) :: (((lo', _) :: _) as t) => (lo <=? hi) && (hi <? lo') && ranges_sorted t
+  | [(lo, hi)] => lo <=? hi
+  | [] => true
+  end.
+
+Lemma in_ranges_spec l r : ranges_sorted l = true ->
+  in_ranges l r = existsb (fun x => (fst x <=? r) && (r <=? snd x)) l.
+Proof.
+  induction l as [|[lo hi] t IH]; intros Hs; [reflexivity|]. cbn [in_ranges existsb fst snd].
+  assert (Ht : ranges_sorted t = true /\ lo <= hi /\ forall x, In x t -> hi < fst x).
+  { destruct t as [|[lo' hi'] t'].
+    - simpl in Hs. repeat split; [lia | intros x []].
+    - cbn [ranges_sorted] in Hs. apply andb_true_iff in Hs as [Hs Hs2]. apply andb_true_iff in Hs as [Ha Hb].
+      split; [exact Hs2|]. split; [lia|].
+      clear IH. revert lo' hi' Hb Hs2. induction t' as [|[lo2 hi2] t2 IH2]; intros lo' hi' Hb Hs2 x [<- | Hin]; simpl; try lia; try contradiction.
+      cbn [ranges_sorted] in Hs2. destruct t2 as [|[lo3 hi3] t3].
+      + destruct Hin as [<- | []]. simpl. apply andb_true_iff in Hs2 as [Hs2 _]. lia.
+      + apply andb_true_iff in Hs2 as [Hs2 Hs3]. apply (IH2 lo2 hi2); [lia | exact Hs3 | exact Hin]. }
+  destruct Ht as (Ht & Hlh & Hgt).
+  destruct (r <? lo) eqn:E1.
+  - replace ((lo <=? r) && (r <=? hi)) with false by lia. simpl. symmetry. apply not_true_is_false.
+    intros Hex. apply existsb_exists in Hex as (x & Hin & Hx). specialize (Hgt x Hin). lia.
+  - destruct (r <=? hi) eqn:E2.
+    + replace (lo <=? r) with true by lia. reflexivity.
+    + replace ((lo <=? r) && false) with false by (destruct (lo <=? r); reflexivity). simpl. apply IH. exact Ht.
+Qed.
+
+Lemma go_letters_sorted : ranges_sorted unicode_L = true.
+Proof. vm_compute. reflexivity. Qed.
+
+(* \p{L}: r is a letter iff it lies in one of the generated ranges *)
+Lemma go_is_letter_spec r : go_is_letter r = true <-> exists lo hi, In (lo, hi) unicode_L /\ lo <= r <= hi.
+Proof.
+  unfold go_is_letter. rewrite in_ranges_spec by exact go_letters_sorted. rewrite existsb_exists. split.
+  - intros ([lo hi] & Hin & H). exists lo, hi. simpl in H. split; [exact Hin | lia].
+  - intros (lo & hi & Hin & H). exists (lo, hi). simpl. split; [exact Hin | lia].
+Qed.
+
+(* ---- lines of bytes ---- *)
+
+Lemma decode_syms_no_newline line : ~ In ch_nl line -> no_newline sym fst (decode_syms line).
+Proof.
+  intros Hn. apply Forall_forall. intros x Hin E. apply Hn.
+  pose proof (wf_syms_ok _ (wf_decode_syms line)) as Hok. rewrite Forall_forall in Hok.
+  pose proof (sym_ok_ascii x ch_nl (Hok x Hin) E eq_refl) as Hs.
+  rewrite <- (raw_decode_syms line). unfold raw. apply in_flat_map. exists x. split; [exact Hin|]. destruct x as [xr xb]. simpl in *. subst xb. left. reflexivity.
+Qed.
+
+Lemma no_newline_dec {A} (code : A -> N) s : forallb (fun c => negb (code c =? ch_nl)) s = true -> no_newline A code s.
+Proof.
+  intros H. apply Forall_forall. intros c Hc. rewrite forallb_forall in H. specialize (H c Hc).
+  apply negb_true_iff, N.eqb_neq in H. exact H.
+Qed.
+
+(* the tags of a line of bytes are those the specification finds among its symbols: names lower-cased, values as written *)
+Definition tag_of_view (to_lower : N -> N) (nv : list sym * list sym) : tag := mk_tag to_lower (raw (fst nv)) (raw (snd nv)).
+
+Lemma line_tags_spec is_letter to_lower line :
+  is_letter ch_dq = false -> is_letter ch_sq = false -> ~ In ch_nl line ->
+  forall ts, spec_tags is_letter sym fst (decode_syms line) ts ->
+             line_tags is_letter to_lower line = map (tag_of_view to_lower) ts.
+Proof.
+  intros Hd Hs Hn ts Hspec.
+  apply (find_tags_spec is_letter sym fst Hd Hs _ (decode_syms_no_newline line Hn)) in Hspec. subst ts.
+  unfold line_tags. rewrite map_map. apply map_ext. intros m. reflexivity.
+Qed.
+
+Lemma summary_original is_letter to_lower lines :
+  ts_original (summary_tags is_letter to_lower lines) = found_tags is_letter to_lower lines.
+Proof. unfold summary_tags. rewrite put_all_original. reflexivity. Qed.
+
+Lemma contains_spec is_letter to_lower :
+  (forall r, to_lower (to_lower r) = to_lower r) ->
+  (forall r, is_scalar r = true -> is_scalar (to_lower r) = true) ->
+  forall lines q, ts_contains (summary_tags is_letter to_lower lines) q = carries (found_tags is_letter to_lower lines) q.
+Proof.
+  intros Hi Hs lines q. unfold summary_tags. apply contains_put_all. apply found_norm; assumption.
+Qed.
+
+(* Merge and the aggregation loop walk Go maps; no observable depends on the order *)
+Lemma merged_order_irrelevant to_lower ls ls' : Forall2 (@Permutation tag) ls ls' ->
+  forall q, ts_contains (merge_lists to_lower ls) q = ts_contains (merge_lists to_lower ls') q.
+Proof. intros H. apply (merge_lists_perm to_lower ls ls' H). Qed.
+
+(* ===================================================================== *)
+(* Part F — statements at the Go tables, data for the examples           *)
+(* ===================================================================== *)
+
+(* a rune list is a list of symbols that are their own code *)
+Definition rune_id (r : N) : N := r.
+
+Lemma not_in_bytes_dec c (s : bytes) : forallb (fun b => negb (b =? c)) s = true -> ~ In c s.
+Proof.
+  intros H Hin. rewrite forallb_forall in H. specialize (H c Hin). rewrite N.eqb_refl in H. discriminate.
+Qed.
+
+Lemma go_line_tags_spec line : ~ In ch_nl line ->
+  exists ts, spec_tags go_is_letter sym fst (decode_syms line) ts /\
+             (forall ts', spec_tags go_is_letter sym fst (decode_syms line) ts' -> ts' = ts) /\
+             line_tags go_is_letter go_to_lower line = map (tag_of_view go_to_lower) ts.
+Proof.
+  intros Hn. pose proof (decode_syms_no_newline line Hn) as Hnl.
+  exists (map (match_view sym fst) (find_all go_is_letter sym fst (decode_syms line))). split; [|split].
+  - apply (find_tags_spec go_is_letter sym fst go_dq_not_letter go_sq_not_letter _ Hnl). reflexivity.
+  - intros ts' H. symmetry. apply (find_tags_spec go_is_letter sym fst go_dq_not_letter go_sq_not_letter _ Hnl). exact H.
+  - apply (line_tags_spec go_is_letter go_to_lower line go_dq_not_letter go_sq_not_letter Hn).
+    apply (find_tags_spec go_is_letter sym fst go_dq_not_letter go_sq_not_letter _ Hnl). reflexivity.
+Qed.
+
+Lemma go_summary_tags lines :
+  go_summary_tags_o lines = Ok (summary_tags go_is_letter go_to_lower lines) /\
+  ts_original (summary_tags go_is_letter go_to_lower lines) = found_tags go_is_letter go_to_lower lines.
+Proof.
+  split; [apply summary_tags_o_eq; [exact go_dq_not_letter | exact go_sq_not_letter] | apply summary_original].
+Qed.
+
+Definition ex_date : date := {| dt := {| c_year := 2024; c_month := 2; c_day := 29 |}; dt_dashes := true |}.
+Definition ex_entry (m : Z) (summary : list bytes) : entry := {| e_value := VDuration (mk_dur m); e_summary := summary |}.
+Definition ex_record (summary : list bytes) (es : list entry) : record :=
+  {| rec_date := ex_date; rec_should := None; rec_summary := summary; rec_entries := es |}.
+Definition ex_tag (n v : bytes) : tag := {| t_name := n; t_value := v |}.
+Definition ex_stat (n v : bytes) (total count : Z) : stat := {| st_tag := ex_tag n v; st_total := total; st_count := count |}.
+
+(* ===================================================================== *)
+(* Part G — the output order is determined: keys are distinct            *)
+(* ===================================================================== *)
+
+Lemma stat_find_some k l s c : stat_find k l = Some (s, c) ->
+  exists x, In x l /\ st_tag x = k /\ st_total x = s /\ st_count x = c.
+Proof.
+  unfold stat_find. destruct (find (fun s0 => tag_eqb (st_tag s0) k) l) as [x|] eqn:E; [|discriminate].
+  intros [= <- <-]. apply find_some in E as (Hin & Ht). apply tag_eqb_eq in Ht. exists x. auto.
+Qed.
+
+Lemma stat_find_In l x : NoDup (tags_of l) -> In x l -> stat_find (st_tag x) l = Some (st_total x, st_count x).
+Proof.
+  induction l as [|y l IH]; intros Hn Hin; [destruct Hin|]. rewrite stat_find_cons.
+  simpl in Hn. inversion Hn; subst. destruct Hin as [-> | Hin].
+  - rewrite tag_eqb_refl. reflexivity.
+  - destruct (tag_eqb (st_tag y) (st_tag x)) eqn:E; [|apply IH; assumption].
+    apply tag_eqb_eq in E. exfalso. apply H1. rewrite E. apply in_map. exact Hin.
+Qed.
+
+Lemma stat_find_tags k l : In k (tags_of l) <-> stat_find k l <> None.
+Proof.
+  split.
+  - intros Hin Hn. induction l as [|y l IH]; [destruct Hin|]. rewrite stat_find_cons in Hn.
+    destruct (tag_eqb (st_tag y) k) eqn:E; [discriminate|]. destruct Hin as [Hin | Hin]; [|auto].
+    rewrite Hin, tag_eqb_refl in E. discriminate.
+  - intros Hn. destruct (stat_find k l) as [[s c]|] eqn:E; [|congruence].
+    apply stat_find_some in E as (x & Hin & <- & _). apply in_map. exact Hin.
+Qed.
+
+Lemma stat_eta (x y : stat) : st_tag x = st_tag y -> st_total x = st_total y -> st_count x = st_count y -> x = y.
+Proof. destruct x, y; simpl; intros -> -> ->; reflexivity. Qed.
+
+(* name=value is injective on tags whose name holds no `=` *)
+Lemma tag_key_inj a b : ~ In ch_eq (t_name a) -> ~ In ch_eq (t_name b) -> tag_key a = tag_key b -> a = b.
+Proof.
+  unfold tag_key. intros Ha Hb E. cbn [app] in E.
+  destruct (split_first_unique N (fun c => c) ch_eq (t_name a) ch_eq (t_value a) (t_name b) ch_eq (t_value b)) as [E1 E2]; auto.
+  - apply Forall_forall. intros x Hx ->. contradiction.
+  - apply Forall_forall. intros x Hx ->. contradiction.
+  - destruct a, b; simpl in *; congruence.
+Qed.
+
+Definition key_lt (a b : stat) : Prop := bytes_ltb (tag_key (st_tag a)) (tag_key (st_tag b)) = true.
+Definition key_le (a b : stat) : Prop := bytes_ltb (tag_key (st_tag b)) (tag_key (st_tag a)) = false.
+Definition good_name (x : stat) : Prop := ~ In ch_eq (t_name (st_tag x)).
+
+Lemma key_lt_trans : Transitive key_lt.
+Proof. intros a b c. unfold key_lt. apply bytes_ltb_trans. Qed.
+
+Lemma sorted_strict l : Forall good_name l -> NoDup (tags_of l) -> Sorted key_le l -> StronglySorted key_lt l.
+Proof.
+  intros Hg Hn Hs. apply Sorted_StronglySorted; [exact key_lt_trans|].
+  induction Hs as [|a l Hs IH Hh]; [constructor|].
+  inversion Hg; subst. simpl in Hn. inversion Hn; subst. constructor; [apply IH; assumption|].
+  destruct Hh as [|b l Hab]; constructor. unfold key_lt, key_le in *.
+  destruct (bytes_ltb (tag_key (st_tag a)) (tag_key (st_tag b))) eqn:E; [reflexivity|].
+  exfalso. apply H3. left. symmetry.
+  inversion H2; subst. apply tag_key_inj; auto. apply bytes_ltb_total; assumption.
+Qed.
+
+Lemma strongly_sorted_perm_unique l : forall l', StronglySorted key_lt l -> StronglySorted key_lt l' -> Permutation l l' -> l = l'.
+Proof.
+  induction l as [|a l IH]; intros l' Hs Hs' Hp.
+  - apply Permutation_nil in Hp. congruence.
+  - destruct l' as [|b l']; [apply Permutation_sym, Permutation_nil in Hp; discriminate|].
+    inversion Hs as [|? ? Hsl Hal]; subst. inversion Hs' as [|? ? Hsl' Hbl']; subst.
+    assert (a = b).
+    { assert (Ha : In a (b :: l')) by (eapply Permutation_in; [exact Hp | left; reflexivity]).
+      assert (Hb : In b (a :: l)) by (eapply Permutation_in; [apply Permutation_sym; exact Hp | left; reflexivity]).
+      destruct Ha as [-> | Ha]; [reflexivity|]. destruct Hb as [-> | Hb]; [reflexivity|].
+      rewrite Forall_forall in Hal, Hbl'. specialize (Hal b Hb). specialize (Hbl' a Ha).
+      unfold key_lt in *. apply bytes_ltb_asym in Hal. congruence. }
+    subst b. f_equal. apply IH; auto. eapply Permutation_cons_inv. exact Hp.
+Qed.
+
+Section Determined.
+  Variable is_letter : N -> bool.
+  Variable to_lower : N -> N.
+  Hypothesis dq_not_letter : is_letter ch_dq = false.
+  Hypothesis sq_not_letter : is_letter ch_sq = false.
+  Hypothesis eq_not_letter : is_letter ch_eq = false.
+  Hypothesis lower_idem : forall r, to_lower (to_lower r) = to_lower r.
+  Hypothesis lower_scalar : forall r, is_scalar r = true -> is_scalar (to_lower r) = true.
+  Hypothesis lower_not_eq : forall r, to_lower r = ch_eq -> r = ch_eq.
+
+  Lemma encode_no_ascii c rs : c < 128 -> In c (utf8_encode rs) -> In c rs.
+  Proof.
+    intros Hc Hin. unfold utf8_encode in Hin. apply in_flat_map in Hin as (r & Hr & Hin).
+    destruct (encode_rune_bytes r) as [[_ E] | [_ Hb]].
+    - rewrite E in Hin. destruct Hin as [<- | []]. exact Hr.
+    - rewrite Forall_forall in Hb. specialize (Hb c Hin). lia.
+  Qed.
+
+  (* a tag name taken from a summary never holds `=` *)
+  Lemma found_name_no_eq lines t : In t (found_tags is_letter to_lower lines) -> ~ In ch_eq (t_name t).
+  Proof.
+    unfold found_tags. intros Hin. apply in_flat_map in Hin as (line & _ & Hin).
+    unfold line_tags in Hin. apply in_map_iff in Hin as (m & <- & Hm).
+    destruct (find_all_In is_letter dq_not_letter sq_not_letter _ _ m (le_n _) Hm)
+      as (pre & post & Es & (h & g2 & Hall & _ & _ & Hname & _)).
+    pose proof (wf_decode_syms line) as Hwf. rewrite Es in Hwf. apply wf_syms_middle in Hwf.
+    rewrite Hall in Hwf. change (h :: m_name m ++ g2) with ([h] ++ m_name m ++ g2) in Hwf. apply wf_syms_middle in Hwf.
+    unfold tag_of_match, mk_tag, str_to_lower. cbn [t_name]. intros Hin.
+    apply encode_no_ascii in Hin; [|reflexivity].
+    rewrite utf8_decode_syms, Hwf, map_map in Hin. apply in_map_iff in Hin as (x & Hx & Hxin).
+    apply lower_not_eq in Hx. unfold all_name in Hname. rewrite Forall_forall in Hname. specialize (Hname x Hxin).
+    unfold name_char, name_code in Hname. rewrite Hx, eq_not_letter in Hname. discriminate.
+  Qed.
+
+  Lemma out_names_good rs out : aggregate_o is_letter to_lower rs = Ok out -> Forall good_name out.
+  Proof.
+    intros Hagg.
+    destruct (tag_totals is_letter to_lower dq_not_letter sq_not_letter lower_idem lower_scalar rs out Hagg) as (Hf & _ & _).
+    apply Forall_forall. intros x Hx. unfold good_name.
+    assert (Hne : stat_find (st_tag x) out <> None) by (apply stat_find_tags, in_map; exact Hx).
+    rewrite Hf in Hne. unfold agg_expect in Hne.
+    destruct (matching is_letter to_lower rs (st_tag x)) as [|m0 ms] eqn:Em; [congruence|]. clear Hne.
+    assert (Hin : In m0 (matching is_letter to_lower rs (st_tag x))) by (rewrite Em; left; reflexivity).
+    unfold matching in Hin. apply in_flat_map in Hin as (r & _ & Hin). apply in_map_iff in Hin as (e & _ & He).
+    apply filter_In in He as (_ & Hc).
+    apply (carries_iff to_lower) in Hc; [|apply entry_found_norm; assumption].
+    destruct Hc as (t & Ht & Hk).
+    assert (Hgood : ~ In ch_eq (t_name t)).
+    { unfold entry_found in Ht. apply in_app_or in Ht as [Ht | Ht]; eapply found_name_no_eq; eassumption. }
+    destruct Hk as [-> | ->]; [exact Hgood|].
+    assert (Hnorm : tag_norm to_lower t).
+    { pose proof (entry_found_norm is_letter to_lower lower_idem lower_scalar r e) as Hn.
+      rewrite Forall_forall in Hn. apply Hn. exact Ht. }
+    rewrite (bare_of_norm to_lower t Hnorm). exact Hgood.
+  Qed.
+
+  (* the reported list is STRICTLY increasing in name=value: no two keys are equal *)
+  Theorem tag_totals_strict rs out : aggregate_o is_letter to_lower rs = Ok out -> StronglySorted key_lt out.
+  Proof.
+    intros Hagg.
+    destruct (tag_totals is_letter to_lower dq_not_letter sq_not_letter lower_idem lower_scalar rs out Hagg) as (_ & Hs & Hn).
+    apply sorted_strict; [eapply out_names_good; eassumption | exact Hn | exact Hs].
+  Qed.
+
+  (* hence the output does not depend on the order in which the Go maps are walked: ANY list holding the same
+     dictionary (no key twice) and sorted by key is the model's output *)
+  Theorem tag_totals_determined rs out out' : aggregate_o is_letter to_lower rs = Ok out ->
+    NoDup (tags_of out') -> (forall k, stat_find k out' = stat_find k out) -> Sorted key_le out' -> out' = out.
+  Proof.
+    intros Hagg Hn' Hf' Hs'.
+    destruct (tag_totals is_letter to_lower dq_not_letter sq_not_letter lower_idem lower_scalar rs out Hagg) as (Hf & Hs & Hn).
+    pose proof (out_names_good rs out Hagg) as Hg.
+    assert (Hmem : forall x, In x out' <-> In x out).
+    { assert (Hdir : forall l1 l2, NoDup (tags_of l1) -> (forall k, stat_find k l1 = stat_find k l2) -> forall x, In x l1 -> In x l2).
+      { intros l1 l2 Hn1 Hff x Hx. pose proof (stat_find_In l1 x Hn1 Hx) as E. rewrite Hff in E.
+        apply stat_find_some in E as (y & Hy & E1 & E2 & E3). rewrite (stat_eta x y); auto. }
+      intros x. split; [apply Hdir; auto | apply Hdir; auto]. }
+    assert (Hg' : Forall good_name out').
+    { rewrite Forall_forall in *. intros x Hx. apply Hg. apply Hmem. exact Hx. }
+    symmetry. apply strongly_sorted_perm_unique.
+    - apply sorted_strict; assumption.
+    - apply sorted_strict; assumption.
+    - apply NoDup_Permutation.
+      + eapply NoDup_map_inv. exact Hn.
+      + eapply NoDup_map_inv. exact Hn'.
+      + intros x. symmetry. apply Hmem.
+  Qed.
+End Determined.
+
+(* ---- the two extra table facts ---- *)
+
+Lemma go_eq_not_letter : go_is_letter ch_eq = false.
+Proof. vm_compute. reflexivity. Qed.
+
+Lemma go_lower_not_eq r : go_to_lower r = ch_eq -> r = ch_eq.
+Proof.
+  intros H. destruct (N.eq_dec (go_to_lower r) r) as [E | E]; [congruence|]. exfalso.
+  assert (Hc : negb (go_to_lower r =? ch_eq) = true).
+  { apply (lower_table_forall (fun r => negb (go_to_lower r =? ch_eq)) unicode_lower go_steps_ok); [|exact E].
+    vm_compute. reflexivity. }
+  rewrite H in Hc. discriminate.
+Qed.
+
+(* Go's negated class [^D]* (D = the double quote) also matches a line feed: on text that is NOT a single line the matcher lets a quoted value span
+   the line feed, where the specification treats the value as absent. No summary line contains a line feed
+   (the parser splits at them), so this is outside every reachable input; it shows that the single-line
+   hypothesis of find_tags_spec cannot be dropped. Witness: # a = D LF D *)
+Lemma find_tags_multiline_differs :
+  exists (s : list N) ts, spec_tags go_is_letter N rune_id s ts /\
+                          map (match_view N rune_id) (find_all go_is_letter N rune_id s) <> ts.
+Proof.
+  exists [35; 97; 61; 34; 10; 34], [([97], [])]. split.
+  - apply (STag _ _ _ _ _ _ [61; 34; 10; 34]).
+    + change [35; 97; 61; 34; 10; 34] with (35 :: [97] ++ [61; 34; 10; 34]). constructor.
+      * reflexivity.
+      * discriminate.
+      * repeat constructor.
+      * vm_compute. reflexivity.
+      * apply VAbsent.
+        -- intros b r (e & q & cl & E & He & Hq & Hcl & Hb). injection E as <- <- E.
+           destruct b as [|b0 b].
+           ++ injection E as <- _. vm_compute in Hcl. discriminate.
+           ++ injection E as <- _. inversion Hb; subst. destruct H1 as [_ H1]. apply H1. reflexivity.
+        -- intros v r (e & E & _ & Hne & Ha & _). injection E as _ E. destruct v as [|v0 v]; [congruence|].
+           injection E as <- _. inversion Ha; subst. vm_compute in H1. discriminate.
+    + repeat (apply SSkip; [intros (h & c & r & E & Hh & _); injection E as <- _; vm_compute in Hh; discriminate|]).
+      constructor.
+  - vm_compute. discriminate.
+Qed.
+
+(* ===================================================================== *)
+(* Part H — NewTagFromString on arbitrary strings (the --tag argument)   *)
+(* ===================================================================== *)
+
+Section QueryTag.
+  Variable is_letter : N -> bool.
+  Variable to_lower : N -> N.
+  Hypothesis dq_not_letter : is_letter ch_dq = false.
+  Hypothesis sq_not_letter : is_letter ch_sq = false.
+
+  Lemma find_first_In s : forall m, find_first is_letter sym fst s = Some m ->
+    exists pre post, s = pre ++ m_all m ++ post /\ match_shape is_letter m.
+  Proof.
+    induction s as [|c r IH]; intros m; [discriminate|]. cbn [find_first].
+    destruct (match_at is_letter sym fst (c :: r)) as [[m0 rest]|] eqn:E.
+    - intros [= <-]. destruct (match_at_shape is_letter _ _ _ E) as (Es & Hsh).
+      exists [], rest. split; [exact Es | exact Hsh].
+    - intros H. destruct (IH m H) as (pre & post & -> & Hsh). exists (c :: pre), post. split; [reflexivity | exact Hsh].
+  Qed.
+
+  Definition with_hash (s : bytes) : bytes :=
+    match s with
+    | c :: _ => if c =? ch_hash then s else ch_hash :: s
+    | [] => [ch_hash]
+    end.
+
+  (* NewTagFromString: the leftmost match of the (hash-prefixed) string must span it; the result is the tag that
+     match denotes; the call never panics *)
+  Lemma new_tag_from_string_spec s :
+    new_tag_from_string is_letter to_lower s =
+    match find_first is_letter sym fst (decode_syms (with_hash s)) with
+    | Some m => if Nat.eqb (length (raw (m_all m))) (length (with_hash s)) then Ok (Some (tag_of_match to_lower m)) else Ok None
+    | None => Ok None
+    end.
+  Proof.
+    unfold new_tag_from_string. cbv zeta.
+    change (match s with [] => [ch_hash] | c :: _ => if c =? ch_hash then s else ch_hash :: s end) with (with_hash s).
+    destruct (find_first is_letter sym fst (decode_syms (with_hash s))) as [m|] eqn:E; [|reflexivity].
+    destruct (Nat.eqb (length (raw (m_all m))) (length (with_hash s))); [|reflexivity].
+    destruct (find_first_In _ _ E) as (pre & post & Es & (h & g2 & Hall & Hh & Hne & Hname & Hv & Hg2)).
+    pose proof (wf_decode_syms (with_hash s)) as Hwf. rewrite Es in Hwf. apply wf_syms_middle in Hwf.
+    pose proof (wf_syms_ok _ Hwf) as Hok.
+    assert (Hokv : Forall sym_ok (m_val m)).
+    { rewrite Hall in Hok. inversion Hok; subst. apply Forall_app in H2 as [_ H2].
+      destruct Hv as [[_ ->] | [(e & q & body & cl & -> & _) | (e & -> & _)]]; [constructor | inversion H2; assumption | inversion H2; assumption]. }
+    destruct (tag_value_raw is_letter dq_not_letter sq_not_letter g2 (m_val m) Hokv Hv) as (Htv & Hnp).
+    unfold new_tag_or_panic. rewrite Htv, Hnp. reflexivity.
+  Qed.
+
+  Lemma new_tag_from_string_total s : exists o, new_tag_from_string is_letter to_lower s = Ok o.
+  Proof.
+    rewrite new_tag_from_string_spec. destruct (find_first is_letter sym fst (decode_syms (with_hash s))) as [m|]; [|eauto].
+    destruct (Nat.eqb (length (raw (m_all m))) (length (with_hash s))); eauto.
+  Qed.
+End QueryTag.
